@@ -10,12 +10,16 @@ debounce only ever deliver items the source emitted, in source order, none twice
 All theorems quantify over every period, every script and EVERY interleaving (every label list accepted by `step`);
 they are proved by invariants over `Reach`.  This file also holds the invariants shared with `C15.lean`
 (`IW.Inv`, `IW.TInv`, `Timeout.Inv`, `Debounce.Inv`, `Timer.Inv`).
-`Timeout` follows operators/timeout.rs AFTER the repair "timeout cancels its armed timer when the subscription ends".
+`Timeout` follows operators/timeout.rs at HEAD 11cd3c1 (on_finalize cancels the armed timer; re-check after the store)
+and has consumer handling times (`Params.handling`): the downstream callback blocks the source thread inside `sink_next`.
 
 Main theorems: `Interval.interval_ticks` (+ `interval_emits`, `interval_only`, `interval_tie_delivered/_dropped`),
-`Timer.timer_once`, `Delay.delay_times` (+ `expected_events`, `expected_sorted`, `expected_rel/abs`),
-`Timeout.timeout_exact` (+ `expected_no_gap`, `expected_gap`, `timeout_tie_fires/_passes`),
-`Debounce.debounce_subsequence`, `Sample.sample_subsequence`.
+`Timer.timer_once`, `Delay.delay_times` (+ `expected_events`, `expected_sorted`, `expected_rel/abs`; with consumer
+handling times `Params.handling`),
+`Timeout.timeout_exact` (+ `expected_no_gap`, `expected_gap`, `timeout_never_fires_on_slow_consumer`,
+`timeout_tie_fires/_passes`),
+`Debounce.debounce_subsequence`, `Sample.sample_subsequence`; for the executable expectations of the model file
+(`expectedLine`): `Interval.interval_expected`, `Interval.interval_take_expected`, `Timer.timer_expected`.
 -/
 namespace Rx.Timed
 
@@ -535,32 +539,37 @@ end Timer
 
 namespace Delay
 
-theorem expected_ge {d : Nat} : ∀ (sc : Script) (t : Nat) (o : Out), o ∈ expected d t sc → t ≤ o.1
-  | [], _, _, h => by simp [expected] at h
-  | (w, .next x) :: r, t, o, h => by
+theorem expected_ge {d : Nat} : ∀ (sc : Script) (hs : List Nat) (t : Nat) (o : Out), o ∈ expected d t sc hs → t ≤ o.1
+  | [], _, _, _, h => by simp [expected] at h
+  | (w, .next x) :: r, hs, t, o, h => by
       simp only [expected, List.mem_cons] at h
       have := w.le_wake t
       rcases h with h | h
       · subst h; simp; omega
-      · have := expected_ge r _ o h; omega
-  | (w, .error e) :: r, t, o, h => by
+      · have := expected_ge r _ _ o h; omega
+  | (w, .error e) :: r, hs, t, o, h => by
       simp only [expected, List.mem_cons, List.not_mem_nil, or_false] at h
       subst h; exact w.le_wake t
-  | (w, .complete) :: r, t, o, h => by
+  | (w, .complete) :: r, hs, t, o, h => by
       simp only [expected, List.mem_cons, List.not_mem_nil, or_false] at h
       subst h; exact w.le_wake t
 
 /-- every record still to come is no earlier than the moment the head's call is made (plus `d` for an item) -/
-theorem expected_head_ge {d : Nat} {w : Wait} {ev : Ev} {r : Script} {t : Nat} {o : Out}
-    (h : o ∈ expected d t ((w, ev) :: r)) : w.wake t ≤ o.1 ∧ (∀ x, ev = .next x → w.wake t + d ≤ o.1) := by
+theorem expected_head_ge {d : Nat} {w : Wait} {ev : Ev} {r : Script} {hs : List Nat} {t : Nat} {o : Out}
+    (h : o ∈ expected d t ((w, ev) :: r) hs) : w.wake t ≤ o.1 ∧ (∀ x, ev = .next x → w.wake t + d ≤ o.1) := by
   cases ev with
   | next x =>
     simp only [expected, List.mem_cons] at h
     rcases h with h | h
     · subst h; simp
-    · have := expected_ge r _ o h; simp; omega
+    · have := expected_ge r _ _ o h; simp; omega
   | error e => simp only [expected, List.mem_cons, List.not_mem_nil, or_false] at h; subst h; simp
   | complete => simp only [expected, List.mem_cons, List.not_mem_nil, or_false] at h; subst h; simp
+
+/-- the records still to come, as a function of the state (while the subscriber is subscribed) -/
+def futOf (p : Params) (s : State) : List Out :=
+  if s.src.pc = .mid2 then expected p.d s.src.wake s.src.rest.tail s.hrest.tail
+  else expected p.d s.src.base s.src.rest s.hrest
 
 structure Inv (p : Params) (s : State) : Prop where
   u_wait : s.udone = false → ∀ u : Nat, p.unsubAt = some u → s.now ≤ u
@@ -572,40 +581,55 @@ structure Inv (p : Params) (s : State) : Prop where
   call : s.src.pc = .call → ∀ (w : Wait) (ev : Ev) (r : Script), s.src.rest = (w, ev) :: r → s.now = w.wake s.src.base
   mid1 : s.src.pc = .mid1 → s.now ≤ s.src.wake ∧ ∀ (w : Wait) (ev : Ev) (r : Script), s.src.rest = (w, ev) :: r →
             s.src.wake = w.wake s.src.base + p.d ∧ ∃ x, ev = .next x
-  mid2 : s.src.pc ≠ .mid2
+  mid2 : s.src.pc = .mid2 → s.now ≤ s.src.wake
   done : s.src.pc = .done → s.src.rest = []
-  fut : ∃ f : List Out, s.log ++ f = expected p.d 0 p.script ∧ (s.sub = true → f = expected p.d s.src.base s.src.rest) ∧
+  fut : ∃ f : List Out, s.log ++ f = expected p.d 0 p.script p.handling ∧ (s.sub = true → f = futOf p s) ∧
           (s.sub = false → f = [] ∨ ∃ u : Nat, p.unsubAt = some u ∧ ∀ o ∈ f, u ≤ o.1)
   safe : ∀ o ∈ s.log, ∀ u : Nat, p.unsubAt = some u → o.1 ≤ u
 
 theorem inv_init (p : Params) : Inv p (init p) := by
   cases hs : p.script with
-  | nil => constructor <;> simp [init, Src.start, hs, expected] <;> cases p.unsubAt <;> simp
+  | nil => constructor <;> simp [init, Src.start, hs, expected, futOf] <;> cases p.unsubAt <;> simp
   | cons a r =>
     obtain ⟨w, ev⟩ := a
-    constructor <;> simp [init, Src.start, hs] <;> first | (cases p.unsubAt <;> simp) | exact w.le_wake 0
+    constructor <;> simp [init, Src.start, hs, futOf] <;> first | (cases p.unsubAt <;> simp) | exact w.le_wake 0
 
 /-- nothing still to come is earlier than `now` -/
-theorem fut_ge {p : Params} {s : State} (h : Inv p s) (o : Out) (ho : o ∈ expected p.d s.src.base s.src.rest) :
-    s.now ≤ o.1 := by
+theorem fut_ge {p : Params} {s : State} (h : Inv p s) (o : Out) (ho : o ∈ futOf p s) : s.now ≤ o.1 := by
   obtain ⟨a1, a2, a3, a4, a5, a6, a7, a8, a9, a10, _, a12⟩ := h
-  cases hr : s.src.rest with
-  | nil => simp [hr, expected] at ho
-  | cons a r =>
-    obtain ⟨w, ev⟩ := a
-    rw [hr] at ho
-    obtain ⟨g1, g2⟩ := expected_head_ge ho
-    cases hp : s.src.pc
-    · have := a6 hp; have := this.2 w ev r hr; omega
-    · have := a7 hp w ev r hr; omega
-    · obtain ⟨m1, m2⟩ := a8 hp
-      obtain ⟨m3, x, m4⟩ := m2 w ev r hr
-      have := g2 x m4; omega
-    · exact absurd hp a9
-    · simp [a10 hp] at hr
+  simp only [futOf] at ho
+  split at ho
+  · next hp => have := expected_ge _ _ _ o ho; have := a9 hp; omega
+  · next hp2 =>
+    cases hr : s.src.rest with
+    | nil => simp [hr, expected] at ho
+    | cons a r =>
+      obtain ⟨w, ev⟩ := a
+      rw [hr] at ho
+      obtain ⟨g1, g2⟩ := expected_head_ge ho
+      cases hp : s.src.pc
+      · have := a6 hp; have := this.2 w ev r hr; omega
+      · have := a7 hp w ev r hr; omega
+      · obtain ⟨m1, m2⟩ := a8 hp
+        obtain ⟨m3, x, m4⟩ := m2 w ev r hr
+        have := g2 x m4; omega
+      · exact absurd hp hp2
+      · simp [a10 hp] at hr
+
+theorem next_futOf (p : Params) (s : State) :
+    futOf p (next s) = expected p.d s.now s.src.rest.tail s.hrest.tail ∧ (next s).src.pc ≠ .mid1 ∧ (next s).src.pc ≠ .mid2 := by
+  obtain ⟨q1, q2, q3, q4, q5, q6⟩ := Src.start_props s.now s.src.rest.tail
+  have hpc : (s.src.advance s.now).pc ≠ .mid1 ∧ (s.src.advance s.now).pc ≠ .mid2 := by
+    simp only [Src.advance]; rcases q1 with h | h <;> simp [h]
+  refine ⟨?_, hpc.1, hpc.2⟩
+  simp only [futOf, next, hpc.2, if_false]
+  simp [Src.advance, q3]
 
 theorem step_inv {p : Params} {s s' : State} {l : Label} (h : Inv p s) (hs : step p s l = some s') : Inv p s' := by
+  have hI := h
   obtain ⟨a1, a2, a3, a4, a5, a6, a7, a8, a9, a10, ⟨f, f1, f2, f3⟩, a12⟩ := h
+  obtain ⟨n1, n2, n3⟩ := next_futOf p s
+  obtain ⟨q1, q2, q3, q4, q5, q6⟩ := Src.start_props s.now s.src.rest.tail
   cases l with
   | tick t' =>
     simp only [step] at hs
@@ -613,7 +637,7 @@ theorem step_inv {p : Params} {s s' : State} {l : Label} (h : Inv p s) (hs : ste
     · next hc =>
       obtain ⟨c1, c2, c3⟩ := hc
       injection hs with hs; subst hs
-      have hf : ∃ f : List Out, s.log ++ f = expected p.d 0 p.script ∧ (s.sub = true → f = expected p.d s.src.base s.src.rest) ∧
+      have hf : ∃ f : List Out, s.log ++ f = expected p.d 0 p.script p.handling ∧ (s.sub = true → f = futOf p s) ∧
           (s.sub = false → f = [] ∨ ∃ u : Nat, p.unsubAt = some u ∧ ∀ o ∈ f, u ≤ o.1) := ⟨f, f1, f2, f3⟩
       constructor <;> first | exact hf | grind [srcAllowsTick, uAllowsTick]
     · contradiction
@@ -630,8 +654,10 @@ theorem step_inv {p : Params} {s s' : State} {l : Label} (h : Inv p s) (hs : ste
           simp only [Src.wakeUp] at hx
           split at hx
           · injection hx with hx; subst hx
-            have hf : ∃ f : List Out, s.log ++ f = expected p.d 0 p.script ∧ (s.sub = true → f = expected p.d s.src.base s.src.rest) ∧
-              (s.sub = false → f = [] ∨ ∃ u : Nat, p.unsubAt = some u ∧ ∀ o ∈ f, u ≤ o.1) := ⟨f, f1, f2, f3⟩
+            have hf : ∃ f : List Out, s.log ++ f = expected p.d 0 p.script p.handling ∧
+              (s.sub = true → f = futOf p { s with src := { s.src with pc := .call } }) ∧
+              (s.sub = false → f = [] ∨ ∃ u : Nat, p.unsubAt = some u ∧ ∀ o ∈ f, u ≤ o.1) :=
+                ⟨f, f1, fun h => by rw [f2 h]; simp [futOf, hp], f3⟩
             constructor <;> first | exact hf | grind
           · contradiction
         · contradiction
@@ -641,55 +667,88 @@ theorem step_inv {p : Params} {s s' : State} {l : Label} (h : Inv p s) (hs : ste
           split at hs
           · next hsrc =>
             injection hs with hs; subst hs
-            have hf : ∃ f : List Out, s.log ++ f = expected p.d 0 p.script ∧ (s.sub = true → f = expected p.d s.src.base s.src.rest) ∧
-              (s.sub = false → f = [] ∨ ∃ u : Nat, p.unsubAt = some u ∧ ∀ o ∈ f, u ≤ o.1) := ⟨f, f1, f2, f3⟩
+            have hf : ∃ f : List Out, s.log ++ f = expected p.d 0 p.script p.handling ∧
+              (s.sub = true → f = futOf p { s with src := { s.src with pc := .mid1, wake := s.now + p.d } }) ∧
+              (s.sub = false → f = [] ∨ ∃ u : Nat, p.unsubAt = some u ∧ ∀ o ∈ f, u ≤ o.1) :=
+                ⟨f, f1, fun h => by rw [f2 h]; simp [futOf, hp], f3⟩
             constructor <;> first | exact hf | grind
           · next hsrc =>
             injection hs with hs; subst hs
-            obtain ⟨q1, q2, q3, q4, q5, q6⟩ := Src.start_props s.now s.src.rest.tail
             have hsub : s.sub = false := by cases h : s.sub <;> simp_all
-            have hf : ∃ f : List Out, s.log ++ f = expected p.d 0 p.script ∧
-              (s.sub = true → f = expected p.d (s.src.advance s.now).base (s.src.advance s.now).rest) ∧
+            have hf : ∃ f : List Out, s.log ++ f = expected p.d 0 p.script p.handling ∧
+              (s.sub = true → f = futOf p (next s)) ∧
               (s.sub = false → f = [] ∨ ∃ u : Nat, p.unsubAt = some u ∧ ∀ o ∈ f, u ≤ o.1) := ⟨f, f1, by simp [hsub], f3⟩
-            constructor <;> first | exact hf | grind [Src.advance]
+            constructor <;> first | exact hf | grind [next, Src.advance]
         · next w ev r hne hr =>
           injection hs with hs; subst hs
-          obtain ⟨q1, q2, q3, q4, q5, q6⟩ := Src.start_props s.now s.src.rest.tail
           have hnow := a7 hp w ev r hr
-          have hf : ∃ f' : List Out, (s.log ++ if (s.srcSub && s.sub) = true then [(s.now, ev)] else []) ++ f' = expected p.d 0 p.script ∧
-              ((s.sub && !s.srcSub) = true → f' = expected p.d (s.src.advance s.now).base (s.src.advance s.now).rest) ∧
+          have hf : ∃ f' : List Out, (s.log ++ if (s.srcSub && s.sub) = true then [(s.now, ev)] else []) ++ f' = expected p.d 0 p.script p.handling ∧
+              ((s.sub && !s.srcSub) = true → f' = futOf p (next s)) ∧
               ((s.sub && !s.srcSub) = false → f' = [] ∨ ∃ u : Nat, p.unsubAt = some u ∧ ∀ o ∈ f', u ≤ o.1) := by
             cases hsub : s.sub
             · exact ⟨f, by simpa using f1, by simp, fun _ => f3 hsub⟩
             · have hsrc := a4 hsub
               refine ⟨[], ?_, by simp [hsrc], fun _ => Or.inl rfl⟩
-              rw [← f1, f2 hsub, hr]
+              rw [← f1, f2 hsub]
+              simp only [futOf, hp, hr]
               cases ev with
               | next x => exact absurd rfl (hne x)
               | error e => simp [hsrc, expected, hnow]
               | complete => simp [hsrc, expected, hnow]
-          constructor <;> first | exact hf | grind [Src.advance]
+          constructor <;> first | exact hf | grind [next, Src.advance]
         · next hr => exact absurd hr (a5 (by simp [hp]))
       · next hp =>
         split at hs
         · next w ev r hr =>
           split at hs
           · next hw =>
-            injection hs with hs; subst hs
-            obtain ⟨q1, q2, q3, q4, q5, q6⟩ := Src.start_props s.now s.src.rest.tail
             obtain ⟨m1, m2⟩ := a8 hp
             obtain ⟨m3, x, m4⟩ := m2 w ev r hr
-            have hnow : s.now = w.wake s.src.base + p.d := by omega
-            have hf : ∃ f' : List Out, (s.log ++ if s.sub = true then [(s.now, ev)] else []) ++ f' = expected p.d 0 p.script ∧
-                (s.sub = true → f' = expected p.d (s.src.advance s.now).base (s.src.advance s.now).rest) ∧
-                (s.sub = false → f' = [] ∨ ∃ u : Nat, p.unsubAt = some u ∧ ∀ o ∈ f', u ≤ o.1) := by
-              cases hsub : s.sub
-              · exact ⟨f, by simpa using f1, by simp, fun _ => f3 hsub⟩
-              · refine ⟨expected p.d s.now r, ?_, by intro _; rw [Src.advance, q2, q3, hr]; rfl, by simp⟩
-                rw [← f1, f2 hsub, hr, m4]
-                simp [expected, hnow]
-            constructor <;> first | exact hf | grind [Src.advance]
+            have hnw : s.now = w.wake s.src.base + p.d := by omega
+            have hfs : s.sub = true → f = (s.now, ev) :: expected p.d (s.now + hnow s) r s.hrest.tail := by
+              intro hsub
+              rw [f2 hsub]; simp only [futOf, hp, hr, m4]
+              simp [expected, hnw, hnow]
+            split at hs
+            · next hc =>
+              -- delivered; the consumer's callback keeps the source thread for `h`
+              injection hs with hs; subst hs
+              have hf : ∃ f' : List Out, (s.log ++ [(s.now, ev)]) ++ f' = expected p.d 0 p.script p.handling ∧
+                  (s.sub = true → f' = futOf p { s with src := { s.src with pc := .mid2, wake := s.now + hnow s },
+                                                        log := s.log ++ [(s.now, ev)] }) ∧
+                  (s.sub = false → f' = [] ∨ ∃ u : Nat, p.unsubAt = some u ∧ ∀ o ∈ f', u ≤ o.1) := by
+                refine ⟨expected p.d (s.now + hnow s) r s.hrest.tail, ?_, ?_, by simp [hc.1]⟩
+                · rw [← f1, hfs hc.1]; simp
+                · intro _; simp [futOf, hr]
+              constructor <;> first | exact hf | grind
+            · next hc =>
+              injection hs with hs; subst hs
+              have hf : ∃ f' : List Out, (s.log ++ if s.sub = true then [(s.now, ev)] else []) ++ f' = expected p.d 0 p.script p.handling ∧
+                  (s.sub = true → f' = futOf p (next s)) ∧
+                  (s.sub = false → f' = [] ∨ ∃ u : Nat, p.unsubAt = some u ∧ ∀ o ∈ f', u ≤ o.1) := by
+                cases hsub : s.sub
+                · exact ⟨f, by simpa using f1, by simp, fun _ => f3 hsub⟩
+                · have h0 : hnow s = 0 := by
+                    cases hh : hnow s with
+                    | zero => rfl
+                    | succ n => exact absurd ⟨hsub, by omega⟩ hc
+                  refine ⟨expected p.d s.now r s.hrest.tail, ?_, by intro _; rw [n1, hr]; rfl, by simp⟩
+                  rw [← f1, hfs hsub, h0]; simp
+              constructor <;> first | exact hf | grind [next, Src.advance]
           · contradiction
+        · contradiction
+      · next hp =>
+        split at hs
+        · next hw =>
+          -- the consumer's callback returns
+          injection hs with hs; subst hs
+          have hnow : s.now = s.src.wake := Nat.le_antisymm (a9 hp) hw
+          have hf : ∃ f' : List Out, s.log ++ f' = expected p.d 0 p.script p.handling ∧
+              (s.sub = true → f' = futOf p (next s)) ∧
+              (s.sub = false → f' = [] ∨ ∃ u : Nat, p.unsubAt = some u ∧ ∀ o ∈ f', u ≤ o.1) := by
+            refine ⟨f, f1, ?_, f3⟩
+            intro hsub; rw [f2 hsub, n1]; simp [futOf, hp, hnow]
+          constructor <;> first | exact hf | grind [next, Src.advance]
         · contradiction
       · contradiction
     | 1 =>
@@ -700,8 +759,8 @@ theorem step_inv {p : Params} {s s' : State} {l : Label} (h : Inv p s) (hs : ste
         · next hc =>
           injection hs with hs; subst hs
           have hnow : s.now = u := Nat.le_antisymm (a1 hc.1 u hu) hc.2
-          have hf : ∃ f' : List Out, s.log ++ f' = expected p.d 0 p.script ∧
-              (false = true → f' = expected p.d s.src.base s.src.rest) ∧
+          have hf : ∃ f' : List Out, s.log ++ f' = expected p.d 0 p.script p.handling ∧
+              (false = true → f' = futOf p { s with udone := true, sub := false, srcSub := false }) ∧
               (false = false → f' = [] ∨ ∃ u : Nat, p.unsubAt = some u ∧ ∀ o ∈ f', u ≤ o.1) := by
             refine ⟨f, f1, by simp, fun _ => ?_⟩
             cases hsub : s.sub
@@ -710,7 +769,7 @@ theorem step_inv {p : Params} {s s' : State} {l : Label} (h : Inv p s) (hs : ste
               intro o ho
               rw [f2 hsub] at ho
               rw [← hnow]
-              exact fut_ge ⟨a1, a2, a3, a4, a5, a6, a7, a8, a9, a10, ⟨f, f1, f2, f3⟩, a12⟩ o ho
+              exact fut_ge hI o ho
           constructor <;> first | exact hf | grind
         · contradiction
       · contradiction
@@ -719,15 +778,16 @@ theorem step_inv {p : Params} {s s' : State} {l : Label} (h : Inv p s) (hs : ste
 theorem reach_inv {p : Params} {s : State} (hr : Reach (step p) (init p) s) : Inv p s :=
   reach_induct (Inv p) (inv_init p) (fun _ _ _ h hs => step_inv h hs) s hr
 
-/-- **C16 `delay_times`.**  For every period, every source script (relative gaps and/or absolute instants) and every
-unsubscription time: the log of the subscriber of `source.delay(d)` is always a prefix of `expected d 0 script`
-— item `i` is handed on at `recv_i + d` where `recv_i = wake_i(done_{i-1})` (for an absolute instant `a_i` that is
-`max a_i done_{i-1}`; `done_{i-1}` is the hand-over time of the previous item because the SOURCE thread sleeps inside
-`next`), terminal events pass undelayed, order is the source order — and every record due before `now` (and before the
-unsubscription) is present; nothing is delivered after the unsubscription time. -/
+/-- **C16 `delay_times`.**  For every period, every source script (relative gaps and/or absolute instants), every list of
+consumer handling times and every unsubscription time: the log of the subscriber of `source.delay(d)` is always a prefix
+of `expected d 0 script handling` — item `i` is handed on at `recv_i + d` where `recv_i = wake_i(done_{i-1})` (for an
+absolute instant `a_i` that is `max a_i done_{i-1}`; `done_{i-1}` = hand-over time of the previous item PLUS its handling
+time, because the SOURCE thread sleeps inside `next` and then runs the consumer's callback), terminal events pass
+undelayed, order is the source order — and every record due before `now` (and before the unsubscription) is present;
+nothing is delivered after the unsubscription time. -/
 theorem delay_times (p : Params) (s : State) (hr : Reach (step p) (init p) s) :
-    s.log <+: expected p.d 0 p.script ∧
-    (∀ o ∈ expected p.d 0 p.script, o.1 < s.now → (∀ u : Nat, p.unsubAt = some u → o.1 < u) → o ∈ s.log) ∧
+    s.log <+: expected p.d 0 p.script p.handling ∧
+    (∀ o ∈ expected p.d 0 p.script p.handling, o.1 < s.now → (∀ u : Nat, p.unsubAt = some u → o.1 < u) → o ∈ s.log) ∧
     (∀ o ∈ s.log, ∀ u : Nat, p.unsubAt = some u → o.1 ≤ u) := by
   have h := reach_inv hr
   obtain ⟨f, f1, f2, f3⟩ := h.fut
@@ -751,33 +811,40 @@ def cut : List Ev → List Ev
   | e :: _ => [e]
 
 /-- order is preserved, nothing is dropped or duplicated (up to the first terminal event of the source) -/
-theorem expected_events (d : Nat) : ∀ (sc : Script) (t : Nat), (expected d t sc).map Prod.snd = cut (sc.map Prod.snd)
-  | [], _ => rfl
-  | (w, .next x) :: r, t => by simp [expected, cut, expected_events d r]
-  | (w, .error e) :: r, t => by simp [expected, cut]
-  | (w, .complete) :: r, t => by simp [expected, cut]
+theorem expected_events (d : Nat) : ∀ (sc : Script) (hs : List Nat) (t : Nat),
+    (expected d t sc hs).map Prod.snd = cut (sc.map Prod.snd)
+  | [], _, _ => rfl
+  | (w, .next x) :: r, hs, t => by simp [expected, cut, expected_events d r]
+  | (w, .error e) :: r, hs, t => by simp [expected, cut]
+  | (w, .complete) :: r, hs, t => by simp [expected, cut]
 
 /-- hand-over times are non-decreasing (order kept also in time) -/
-theorem expected_sorted (d : Nat) : ∀ (sc : Script) (t : Nat), (expected d t sc).Pairwise (fun a b => a.1 ≤ b.1)
-  | [], _ => by simp [expected]
-  | (w, .next x) :: r, t => by
+theorem expected_sorted (d : Nat) : ∀ (sc : Script) (hs : List Nat) (t : Nat),
+    (expected d t sc hs).Pairwise (fun a b => a.1 ≤ b.1)
+  | [], _, _ => by simp [expected]
+  | (w, .next x) :: r, hs, t => by
       simp only [expected, List.pairwise_cons]
-      exact ⟨fun o ho => expected_ge r _ o ho, expected_sorted d r _⟩
-  | (w, .error e) :: r, t => by simp [expected]
-  | (w, .complete) :: r, t => by simp [expected]
+      exact ⟨fun o ho => by have := expected_ge r _ _ o ho; simp; omega, expected_sorted d r _ _⟩
+  | (w, .error e) :: r, hs, t => by simp [expected]
+  | (w, .complete) :: r, hs, t => by simp [expected]
 
-theorem expected_rel (d t g : Nat) (x : Data) (r : Script) :
-    expected d t ((.rel g, .next x) :: r) = (t + g + d, .next x) :: expected d (t + g + d) r := rfl
+theorem expected_rel (d t g : Nat) (x : Data) (r : Script) (hs : List Nat) :
+    expected d t ((.rel g, .next x) :: r) hs = (t + g + d, .next x) :: expected d (t + g + d + hs.headD 0) r hs.tail := rfl
 
-theorem expected_abs (d t a : Nat) (x : Data) (r : Script) :
-    expected d t ((.abs a, .next x) :: r) = (max a t + d, .next x) :: expected d (max a t + d) r := by
+theorem expected_abs (d t a : Nat) (x : Data) (r : Script) (hs : List Nat) :
+    expected d t ((.abs a, .next x) :: r) hs =
+      (max a t + d, .next x) :: expected d (max a t + d + hs.headD 0) r hs.tail := by
   have : Wait.wake t (.abs a) = max a t := by simp [Wait.wake]; split <;> omega
   simp [expected, this]
 
 /-- the delays ACCUMULATE: a source that wants to emit at 1 and 2 through `delay(10)` is seen at 11 and 21
     (ReactiveX `delay` would give 11 and 12) -/
-example : expected 10 0 [(.abs 1, .next (.int 1)), (.abs 2, .next (.int 2)), (.abs 3, .complete)]
+example : expected 10 0 [(.abs 1, .next (.int 1)), (.abs 2, .next (.int 2)), (.abs 3, .complete)] []
     = [(11, .next (.int 1)), (21, .next (.int 2)), (21, .complete)] := by decide
+
+/-- with a consumer that needs 5 per item the second item is received only at 16: 11, 26, complete at 31 -/
+example : expected 10 0 [(.abs 1, .next (.int 1)), (.abs 2, .next (.int 2)), (.abs 3, .complete)] [5, 5]
+    = [(11, .next (.int 1)), (26, .next (.int 2)), (31, .complete)] := by decide
 
 /-- non-vacuity: a run of that script reaching time 30 with the whole expected log -/
 example :
@@ -786,6 +853,13 @@ example :
       [.tick 1, .run 0, .run 0, .tick 11, .run 0, .run 0, .run 0, .tick 21, .run 0, .run 0, .run 0, .tick 30]).map
         (fun s => (s.now, s.log))
       = some (30, [(11, .next (.int 1)), (21, .next (.int 2)), (21, .complete)]) := by decide
+
+/-- non-vacuity with the slow consumer (handling 5): 11, 26, complete at 31 -/
+example :
+    (replay { d := 10, script := [(.abs 1, .next (.int 1)), (.abs 2, .next (.int 2)), (.abs 3, .complete)], handling := [5, 5] }
+      [.tick 1, .run 0, .run 0, .tick 11, .run 0, .tick 16, .run 0, .run 0, .run 0, .tick 26, .run 0, .tick 31, .run 0,
+       .run 0, .run 0, .tick 40]).map (fun s => (s.now, s.log))
+      = some (40, [(11, .next (.int 1)), (26, .next (.int 2)), (31, .complete)]) := by decide
 
 end Delay
 
@@ -800,16 +874,19 @@ structure Rel (d now : Nat) (w0 w' : IW) : Prop where
   born : w'.born = w0.born
   sub : w0.sub = false → w'.sub = false
   ended_keep : ∀ e : Nat, w0.endedAt = some e → w'.endedAt = some e
-  ended_new : ∀ e : Nat, w'.endedAt = some e → w0.endedAt = some e ∨ e = now
+  ended_new : ∀ e : Nat, w'.endedAt = some e → w0.endedAt = some e ∨ (e = now ∧ w0.sub = true)
 
 theorem Rel.refl {d now : Nat} {w : IW} (h : TOK d now w) : Rel d now w w :=
   ⟨h, rfl, id, fun _ h => h, fun _ h => Or.inl h⟩
 
 theorem Rel.trans {d now : Nat} {a b c : IW} (h1 : Rel d now a b) (h2 : Rel d now b c) : Rel d now a c :=
   ⟨h2.ok, h2.born.trans h1.born, fun h => h2.sub (h1.sub h), fun e h => h2.ended_keep e (h1.ended_keep e h),
-   fun e h => by rcases h2.ended_new e h with h | h
+   fun e h => by rcases h2.ended_new e h with h | ⟨h, hb⟩
                  · exact h1.ended_new e h
-                 · exact Or.inr h⟩
+                 · refine Or.inr ⟨h, ?_⟩
+                   cases ha : a.sub
+                   · simp [h1.sub ha] at hb
+                   · rfl⟩
 
 theorem Rel.cancel {d now : Nat} {w : IW} (h : TOK d now w) : Rel d now w (w.cancel now) := by
   refine ⟨⟨IW.cancel_inv h.1, IW.cancel_tinv h.1 h.2⟩, rfl, fun _ => rfl, ?_, ?_⟩
@@ -822,7 +899,7 @@ theorem Rel.cancel {d now : Nat} {w : IW} (h : TOK d now w) : Rel d now w (w.can
   · intro e he
     simp only [IW.cancel] at he
     split at he
-    · injection he with he; exact Or.inr he.symm
+    · next hs => injection he with he; exact Or.inr ⟨he.symm, hs⟩
     · exact Or.inl he
 
 theorem Rel.emitted {d now : Nat} {w : IW} (h : TOK d now w) (hp : w.pc = .emit) : Rel d now w (w.emitted now true) := by
@@ -837,7 +914,7 @@ theorem Rel.emitted {d now : Nat} {w : IW} (h : TOK d now w) (hp : w.pc = .emit)
   · intro e he
     simp only [IW.emitted] at he
     split at he
-    · injection he with he; exact Or.inr he.symm
+    · next hs => injection he with he; exact Or.inr ⟨he.symm, by simpa using hs⟩
     · exact Or.inl he
 
 theorem Rel.localStep {d now : Nat} {w w' : IW} (h : TOK d now w) (hs : w.localStep d now = some w') : Rel d now w w' := by
@@ -912,26 +989,39 @@ theorem PW.finTimers {d : Nat} {s : State} {ts : List IW}
 
 structure Inv (p : Params) (s : State) : Prop where
   timers_ok : ∀ (i : Nat) (w : IW), s.timers[i]? = some w → TOK p.d s.now w
-  sub_src : s.srcSub = true → s.sub = true
+  sub_fin : s.sub = true → s.onFin = true
+  src_fin : s.srcSub = true → s.onFin = true
   outer_iff : s.sub = true ↔ s.outerEndedAt = none
   outer_le : ∀ E : Nat, s.outerEndedAt = some E → E ≤ s.now
   outer_born : ∀ E : Nat, s.outerEndedAt = some E → ∀ (i : Nat) (w : IW), s.timers[i]? = some w → w.born ≤ E
-  outer_mid : ∀ E : Nat, s.outerEndedAt = some E → (s.src.pc = .mid1 ∨ s.src.pc = .mid2) → s.now = E
+  fin_pending : s.sub = false → s.onFin = true → s.upc = .fin ∧ s.outerEndedAt = some s.now
+  arm_now : ∀ E : Nat, s.outerEndedAt = some E → s.src.pc = .mid2 → (s.ph = .store ∨ s.ph = .recheck) → s.now = E
   slot_lt : ∀ i : Nat, s.slot = some i → i < s.timers.length
-  sub_fin : s.sub = true → s.onFin = true
-  mid_slot : (s.src.pc = .mid1 ∨ s.src.pc = .mid2) → s.slot = none
+  mid_slot : (s.src.pc = .mid1 ∨ s.src.pc = .mid2) → s.slot = none ∨ (s.src.pc = .mid2 ∧ s.ph = .recheck)
   others : ∀ (i : Nat) (w : IW), s.timers[i]? = some w → s.slot ≠ some i → w.sub = false
-  arming_pc : s.arming = true → s.src.pc = .mid2
-  ended_all : ∀ E : Nat, s.outerEndedAt = some E → s.raced = false →
-    s.arming = false ∧ ∀ (i : Nat) (w : IW), s.timers[i]? = some w → ∃ e : Nat, w.endedAt = some e ∧ e ≤ E
-  raced_u : s.raced = true → p.unsubAt ≠ none
+  pend : ∀ E : Nat, s.outerEndedAt = some E → ∀ (i : Nat) (w : IW), s.timers[i]? = some w → w.sub = true →
+    s.onFin = true ∨ (s.src.pc = .mid2 ∧ s.ph = .recheck)
+  ended_le_E : ∀ E : Nat, s.outerEndedAt = some E → ∀ (i : Nat) (w : IW) (e : Nat), s.timers[i]? = some w →
+    w.endedAt = some e → e ≤ E
+  u_fin : s.upc = .fin → s.sub = false
 
 theorem inv_init (p : Params) : Inv p (init p) := by
-  have := (Src.start_props 0 p.script).1
   constructor <;> simp [init]
+  split <;> simp
 
 theorem start_pc (now : Nat) (r : Script) : (Src.start now r).pc = .sleeping ∨ (Src.start now r).pc = .done :=
   (Src.start_props now r).1
+
+/-- once the outer subscription ended at `E`, a timer can still be subscribed only at the instant `E` itself -/
+theorem sub_now {p : Params} {s : State} (h : Inv p s) {E : Nat} (hE : s.outerEndedAt = some E) {i : Nat} {w : IW}
+    (hw : s.timers[i]? = some w) (hs : w.sub = true) : s.now = E := by
+  have hsub : s.sub = false := by
+    cases hh : s.sub
+    · rfl
+    · have := h.outer_iff.1 hh; simp [hE] at this
+  rcases h.pend E hE i w hw hs with hf | ⟨h1, h2⟩
+  · have := (h.fin_pending hsub hf).2; rw [hE] at this; injection this with this; exact this.symm
+  · exact h.arm_now E hE h1 (Or.inr h2)
 
 /-- what a pointwise step on the timer list keeps of the invariant -/
 theorem pw_basic {p : Params} {s : State} {ts' : List IW} (h : Inv p s) (hpw : PW p.d s.now s.timers ts') :
@@ -940,32 +1030,48 @@ theorem pw_basic {p : Params} {s : State} {ts' : List IW} (h : Inv p s) (hpw : P
     (∀ E : Nat, s.outerEndedAt = some E → ∀ (j : Nat) (w' : IW), ts'[j]? = some w' → w'.born ≤ E) ∧
     (∀ (j : Nat) (w' : IW), ts'[j]? = some w' → s.slot ≠ some j → w'.sub = false) ∧
     ts'.length = s.timers.length ∧
-    (∀ (j : Nat) (w' : IW), ts'[j]? = some w' → w'.sub = false → ∃ e : Nat, w'.endedAt = some e ∧ e ≤ s.now) ∧
-    (∀ E : Nat, s.outerEndedAt = some E → s.raced = false →
-      ∀ (j : Nat) (w' : IW), ts'[j]? = some w' → ∃ e : Nat, w'.endedAt = some e ∧ e ≤ E) := by
-  refine ⟨?_, ?_, ?_, ?_, hpw.1, ?_, ?_⟩
+    (∀ (j : Nat) (w' : IW) (e : Nat), ts'[j]? = some w' → w'.endedAt = some e → e ≤ s.now) ∧
+    (∀ E : Nat, s.outerEndedAt = some E → ∀ (j : Nat) (w' : IW) (e : Nat), ts'[j]? = some w' →
+      w'.endedAt = some e → e ≤ E) ∧
+    (∀ (j : Nat) (w' : IW), ts'[j]? = some w' → w'.sub = true → ∃ w0 : IW, s.timers[j]? = some w0 ∧ w0.sub = true) := by
+  refine ⟨?_, ?_, ?_, ?_, hpw.1, ?_, ?_, ?_⟩
   · intro j w' hw'; obtain ⟨w0, _, r⟩ := hpw.2 j w' hw'; exact r.ok
   · intro j w' hw'; obtain ⟨w0, _, r⟩ := hpw.2 j w' hw'; exact r.ok.2.born_le
   · intro E hE j w' hw'; obtain ⟨w0, h0, r⟩ := hpw.2 j w' hw'; rw [r.born]; exact h.outer_born E hE j w0 h0
   · intro j w' hw' hne; obtain ⟨w0, h0, r⟩ := hpw.2 j w' hw'; exact r.sub (h.others j w0 h0 hne)
-  · intro j w' hw' hs
-    obtain ⟨w0, _, r⟩ := hpw.2 j w' hw'
-    cases he : w'.endedAt with
-    | none => have := r.ok.1.sub_iff.2 he; simp [hs] at this
-    | some e => exact ⟨e, rfl, r.ok.1.ended_le e he⟩
-  · intro E hE hr j w' hw'
+  · intro j w' e hw' he; obtain ⟨w0, _, r⟩ := hpw.2 j w' hw'; exact r.ok.1.ended_le e he
+  · intro E hE j w' e hw' he
     obtain ⟨w0, h0, r⟩ := hpw.2 j w' hw'
-    obtain ⟨e, he, hle⟩ := (h.ended_all E hE hr).2 j w0 h0
-    exact ⟨e, r.ended_keep e he, hle⟩
+    rcases r.ended_new e he with h1 | ⟨h1, h2⟩
+    · exact h.ended_le_E E hE j w0 e h0 h1
+    · have := sub_now h hE h0 h2; omega
+  · intro j w' hw' hs
+    obtain ⟨w0, h0, r⟩ := hpw.2 j w' hw'
+    refine ⟨w0, h0, ?_⟩
+    cases h0s : w0.sub
+    · simp [r.sub h0s] at hs
+    · rfl
 
 theorem finTimers_sub {s : State} {ts : List IW} (hfin : s.onFin = true)
     (h : ∀ (i : Nat) (w : IW), ts[i]? = some w → s.slot ≠ some i → w.sub = false) :
     ∀ (i : Nat) (w : IW), (finTimers s ts)[i]? = some w → w.sub = false := by
   simp only [finTimers, hfin, if_true]; exact cancelIn_sub h
 
+theorem append_new {ts : List IW} {b i : Nat} {w : IW} (hw : (ts ++ [({ born := b } : IW)])[i]? = some w) :
+    (i < ts.length ∧ ts[i]? = some w) ∨ (i = ts.length ∧ w = { born := b }) := by
+  rw [List.getElem?_append] at hw
+  split at hw
+  · next h => exact Or.inl ⟨h, hw⟩
+  · next h =>
+    right
+    cases hi : i - ts.length with
+    | zero => simp [hi] at hw; exact ⟨by omega, hw.symm⟩
+    | succ n => simp [hi] at hw
+
 theorem step_inv {p : Params} {s s' : State} {l : Label} (h : Inv p s) (hs : step p s l = some s') : Inv p s' := by
-  have hself := pw_basic h (PW.refl h.timers_ok)
-  obtain ⟨a1, a2, a3, a4, a5, a6, a7, a8, a9, a10, a11, a12, a13⟩ := h
+  have hI := h
+  have hsn := @sub_now p s h
+  obtain ⟨a1, a2, a3, a4, a5, a6, a7, a8, a9, a10, a11, a12, a13, a14⟩ := h
   cases l with
   | tick t' =>
     simp only [step] at hs
@@ -978,10 +1084,11 @@ theorem step_inv {p : Params} {s s' : State} {l : Label} (h : Inv p s) (hs : ste
       · intro i w hw
         have hm : w ∈ s.timers := List.mem_iff_getElem?.2 ⟨i, hw⟩
         exact ⟨IW.tick_inv (a1 i w hw).1 c1 (c4 w hm), IW.tick_tinv (a1 i w hw).2 c1 (c4 w hm)⟩
-      all_goals grind [Src.allowsTick]
+      all_goals grind [srcAllowsTick, UPc.allowsTick]
     · contradiction
   | run tid =>
-    obtain ⟨k1, k2, k3, k4, k5, k6, k7⟩ := hself
+    obtain ⟨k1, k2, k3, k4, k5, k6, k7, k8⟩ := pw_basic hI (PW.refl a1)
+    have hq := start_pc s.now s.src.rest.tail
     match tid with
     | 0 =>
       simp only [step] at hs
@@ -997,204 +1104,279 @@ theorem step_inv {p : Params} {s s' : State} {l : Label} (h : Inv p s) (hs : ste
           · contradiction
         · contradiction
       · next hp =>
-        have hq := start_pc s.now s.src.rest.tail
         split at hs
         · next w x r hr =>
           split at hs
           · next hsrc =>
+            -- the item handler starts: cancel the armed timer
             injection hs with hs; subst hs
-            have hsub := a2 hsrc
-            have hE := a3.1 hsub
             have hpw : PW p.d s.now s.timers (cancelSlot s) := PW.cancelIn _ a1
-            obtain ⟨m1, m2, m3, m4, m5, m6, m7⟩ := pw_basic ⟨a1, a2, a3, a4, a5, a6, a7, a8, a9, a10, a11, a12, a13⟩ hpw
-            have hall := cancelIn_sub (now := s.now) a10
+            obtain ⟨m1, m2, m3, m4, m5, m6, m7, m8⟩ := pw_basic hI hpw
+            have hall := cancelIn_sub (now := s.now) a11
             constructor
             · exact m1
             · exact a2
             · exact a3
             · exact a4
-            · intro E hE'; simp [hE] at hE'
-            · intro E hE'; simp [hE] at hE'
+            · exact a5
+            · exact m3
+            · exact a7
+            · intro E hE hpc; simp at hpc
             · simp
-            · exact a8
             · simp
             · intro i w hw _; exact hall i w hw
-            · intro ha; have := a11 ha; simp [hp] at this
-            · intro E hE'; simp [hE] at hE'
-            · exact a13
+            · intro E hE i w hw hws; have := hall i w hw; simp [this] at hws
+            · exact m7
+            · exact a14
           · next hsrc =>
             injection hs with hs; subst hs
-            constructor <;> grind [Src.advance]
+            constructor <;> grind [next, Src.advance]
         · next w ev r hne hr =>
           split at hs
           · next hsrc =>
+            -- terminal event: deliver, finalize
             injection hs with hs; subst hs
-            have hsub := a2 hsrc
-            have hfin := a8 hsub
+            have hfin := a3 hsrc
             have hpw : PW p.d s.now s.timers (finTimers s s.timers) := PW.finTimers a1
-            obtain ⟨m1, m2, m3, m4, m5, m6, m7⟩ := pw_basic ⟨a1, a2, a3, a4, a5, a6, a7, a8, a9, a10, a11, a12, a13⟩ hpw
-            have hall := finTimers_sub hfin a10
-            have hnarm : s.arming = false := by
-              cases ha : s.arming
-              · rfl
-              · have := a11 ha; simp [hp] at this
+            obtain ⟨m1, m2, m3, m4, m5, m6, m7, m8⟩ := pw_basic hI hpw
+            have hall := finTimers_sub hfin a11
+            have hE' : ∀ E : Nat, endOuter s = some E → s.outerEndedAt = some E ∨ (E = s.now ∧ s.sub = true) := by
+              intro E hE; simp only [endOuter] at hE
+              split at hE
+              · next hh => injection hE with hE; exact Or.inr ⟨hE.symm, hh⟩
+              · exact Or.inl hE
+            have hpc : (s.src.advance s.now).pc ≠ .mid1 ∧ (s.src.advance s.now).pc ≠ .mid2 := by
+              simp only [Src.advance]; rcases hq with h | h <;> simp [h]
             constructor
             · exact m1
             · simp
-            · simp [endOuter, hsub]
-            · intro E hE; simp [endOuter, hsub] at hE; subst hE; exact Nat.le_refl _
-            · intro E hE j w' hw'; simp [endOuter, hsub] at hE; subst hE; exact m2 j w' hw'
-            · intro E hE hpc; exfalso; simp only [Src.advance] at hpc; rcases hq with h | h <;> simp [h] at hpc
-            · simp [finSlot, hfin]
             · simp
-            · intro _; simp [finSlot, hfin]
+            · simp [endOuter]; cases hsub : s.sub <;> simp; exact fun h => by simp [a4.2 h] at hsub
+            · intro E hE; rcases hE' E hE with h | ⟨h, _⟩
+              · exact a5 E h
+              · subst h; exact Nat.le_refl _
+            · intro E hE j w' hw'; rcases hE' E hE with h | ⟨h, _⟩
+              · exact m3 E h j w' hw'
+              · subst h; exact m2 j w' hw'
+            · simp [next]
+            · intro E hE h1; exact absurd h1 hpc.2
+            · simp [finSlot, hfin]
+            · intro h1; rcases h1 with h1 | h1
+              · exact absurd h1 hpc.1
+              · exact absurd h1 hpc.2
             · intro i w' hw' _; exact hall i w' hw'
-            · intro ha; simp [hnarm] at ha
-            · intro E hE _
-              simp [endOuter, hsub] at hE; subst hE
-              refine ⟨hnarm, ?_⟩
-              intro i w' hw'; exact m6 i w' hw' (hall i w' hw')
-            · exact a13
+            · intro E hE i w' hw' hws; have := hall i w' hw'; simp [this] at hws
+            · intro E hE j w' e hw' he; rcases hE' E hE with h | ⟨h, _⟩
+              · exact m7 E h j w' e hw' he
+              · subst h; exact m6 j w' e hw' he
+            · intro _; rfl
           · next hsrc =>
             injection hs with hs; subst hs
-            constructor <;> grind [Src.advance]
+            constructor <;> grind [next, Src.advance]
         · contradiction
       · next hp =>
         split at hs
-        · next w ev r hr =>
+        · next hph =>
+          split at hs
+          · injection hs with hs; subst hs
+            constructor <;> grind
+          · contradiction
+        · next hph =>
+          split at hs
+          · next w ev r hr =>
+            split at hs
+            · next hsub =>
+              injection hs with hs; subst hs
+              constructor <;> grind
+            · next hsub =>
+              -- `sink_next` on a finished subscription: `finalize`
+              injection hs with hs; subst hs
+              have hsub' : s.sub = false := by simpa using hsub
+              have hslot : s.slot = none := by
+                rcases a10 (Or.inl hp) with h | ⟨h, _⟩
+                · exact h
+                · simp [hp] at h
+              have hpw : PW p.d s.now s.timers (finTimers s s.timers) := PW.finTimers a1
+              obtain ⟨m1, m2, m3, m4, m5, m6, m7, m8⟩ := pw_basic hI hpw
+              have hfs : finSlot s = none := by simp [finSlot, hslot]
+              have hall : ∀ (i : Nat) (w' : IW), (finTimers s s.timers)[i]? = some w' → w'.sub = false :=
+                fun i w' hw' => m4 i w' hw' (by simp [hslot])
+              constructor
+              · exact m1
+              · simp [hsub']
+              · simp
+              · exact a4
+              · exact a5
+              · exact m3
+              · simp
+              · intro E hE _ h2; simp at h2
+              · simp [hfs]
+              · intro _; left; exact hfs
+              · intro i w' hw' _; exact hall i w' hw'
+              · intro E hE i w' hw' hws; have := hall i w' hw'; simp [this] at hws
+              · exact m7
+              · exact a14
+          · contradiction
+      · next hp =>
+        split at hs
+        · next hph =>
+          -- store the new timer
+          injection hs with hs; subst hs
+          have hslot : s.slot = none := by
+            rcases a10 (Or.inr hp) with h | ⟨_, h⟩
+            · exact h
+            · simp [hph] at h
+          constructor
+          · intro i w hw
+            rcases append_new hw with ⟨_, h⟩ | ⟨_, h⟩
+            · exact a1 i w h
+            · subst h; exact ⟨IW.inv_new _ _ _, IW.tinv_new _ _⟩
+          · exact a2
+          · exact a3
+          · exact a4
+          · exact a5
+          · intro E hE i w hw
+            rcases append_new hw with ⟨_, h⟩ | ⟨_, h⟩
+            · exact a6 E hE i w h
+            · subst h; have := a8 E hE hp (Or.inl hph); simp; omega
+          · exact a7
+          · intro E hE _ _; exact a8 E hE hp (Or.inl hph)
+          · simp
+          · intro _; right; exact ⟨hp, rfl⟩
+          · intro i w hw hne
+            rcases append_new hw with ⟨_, h⟩ | ⟨h1, h⟩
+            · exact a11 i w h (by simp [hslot])
+            · exfalso; apply hne; simp [h1]
+          · intro E hE i w hw hws; right; exact ⟨hp, rfl⟩
+          · intro E hE i w e hw he
+            rcases append_new hw with ⟨_, h⟩ | ⟨_, h⟩
+            · exact a13 E hE i w e h he
+            · subst h; simp at he
+          · exact a14
+        · next hph =>
+          have hpc : (s.src.advance s.now).pc ≠ .mid1 ∧ (s.src.advance s.now).pc ≠ .mid2 := by
+            simp only [Src.advance]; rcases hq with h | h <;> simp [h]
+          split at hs
+          · next hsub =>
+            injection hs with hs; subst hs
+            constructor <;> grind [next, Src.advance]
+          · next hsub =>
+            -- re-check: ended meanwhile, cancel the timer just stored
+            injection hs with hs; subst hs
+            have hpw : PW p.d s.now s.timers (cancelSlot s) := PW.cancelIn _ a1
+            obtain ⟨m1, m2, m3, m4, m5, m6, m7, m8⟩ := pw_basic hI hpw
+            have hall := cancelIn_sub (now := s.now) a11
+            constructor
+            · exact m1
+            · exact a2
+            · exact a3
+            · exact a4
+            · exact a5
+            · exact m3
+            · exact a7
+            · intro E hE h1; exact absurd h1 hpc.2
+            · simp
+            · intro _; left; rfl
+            · intro i w hw _; exact hall i w hw
+            · intro E hE i w hw hws; have := hall i w hw; simp [this] at hws
+            · exact m7
+            · exact a14
+        · next hph1 hph2 =>
           split at hs
           · next hsub =>
             injection hs with hs; subst hs
             constructor <;> grind
           · next hsub =>
             injection hs with hs; subst hs
-            have hsub' : s.sub = false := by simpa using hsub
-            have hslot := a9 (Or.inl hp)
-            have hpw : PW p.d s.now s.timers (finTimers s s.timers) := PW.finTimers a1
-            obtain ⟨m1, m2, m3, m4, m5, m6, m7⟩ := pw_basic ⟨a1, a2, a3, a4, a5, a6, a7, a8, a9, a10, a11, a12, a13⟩ hpw
-            have hfs : finSlot s = none := by simp [finSlot, hslot]
-            constructor
-            · exact m1
-            · simp
-            · exact a3
-            · exact a4
-            · exact m3
-            · intro E hE _; exact a6 E hE (Or.inl hp)
-            · simp [hfs]
-            · simp [hsub']
-            · intro _; exact hfs
-            · intro i w' hw' _; exact m4 i w' hw' (by simp [hslot])
-            · intro ha; have := a11 ha; simp [hp] at this
-            · intro E hE hr'; exact ⟨(a12 E hE hr').1, m7 E hE hr'⟩
-            · exact a13
-        · contradiction
-      · next hp =>
-        have hq := start_pc s.now s.src.rest.tail
-        have hslot := a9 (Or.inr hp)
-        split at hs
-        · next harm =>
-          injection hs with hs; subst hs
-          constructor
-          · intro i w hw
-            rw [List.getElem?_append] at hw
-            split at hw
-            · exact a1 i w hw
-            · have : w = { born := s.now } := by
-                cases hi : i - s.timers.length <;> simp [hi] at hw; exact hw.symm
-              subst this
-              exact ⟨IW.inv_new _ _ _, IW.tinv_new _ _⟩
-          · exact a2
-          · exact a3
-          · exact a4
-          · intro E hE i w hw
-            rw [List.getElem?_append] at hw
-            split at hw
-            · exact a5 E hE i w hw
-            · have : w = { born := s.now } := by
-                cases hi : i - s.timers.length <;> simp [hi] at hw; exact hw.symm
-              subst this
-              have := a6 E hE (Or.inr hp); simp; omega
-          · intro E hE hpc; exfalso; simp only [Src.advance] at hpc; rcases hq with h | h <;> simp [h] at hpc
-          · simp
-          · exact a8
-          · intro hpc; exfalso; simp only [Src.advance] at hpc; rcases hq with h | h <;> simp [h] at hpc
-          · intro i w hw hne
-            rw [List.getElem?_append] at hw
-            split at hw
-            · exact a10 i w hw (by simp [hslot])
-            · next hge =>
-              exfalso
-              have : i - s.timers.length ≠ 0 := by
-                intro h0; apply hne; simp; omega
-              cases hi : i - s.timers.length <;> simp [hi] at hw this
-          · simp
-          · intro E hE hr'; have := (a12 E hE hr').1; simp [harm] at this
-          · exact a13
-        · split at hs
-          · next hsub =>
-            injection hs with hs; subst hs
-            constructor <;> grind
-          · next hsub =>
-            injection hs with hs; subst hs
-            constructor <;> grind [Src.advance]
+            constructor <;> grind [next, Src.advance]
       · contradiction
     | 1 =>
       simp only [step] at hs
       split at hs
-      · next u hu =>
+      · next hu =>
         split at hs
-        · next hc =>
-          injection hs with hs; subst hs
-          have hpw : PW p.d s.now s.timers (finTimers s s.timers) := PW.finTimers a1
-          obtain ⟨m1, m2, m3, m4, m5, m6, m7⟩ := pw_basic ⟨a1, a2, a3, a4, a5, a6, a7, a8, a9, a10, a11, a12, a13⟩ hpw
-          constructor
-          · exact m1
-          · simp
-          · simp [endOuter]; cases hsub : s.sub <;> simp; exact fun h => by simp [a3.2 h] at hsub
-          · intro E hE; simp only [endOuter] at hE
-            split at hE
-            · injection hE with hE; subst hE; exact Nat.le_refl _
-            · exact a4 E hE
-          · intro E hE j w' hw'; simp only [endOuter] at hE
-            split at hE
-            · injection hE with hE; subst hE; exact m2 j w' hw'
-            · exact m3 E hE j w' hw'
-          · intro E hE hpc; simp only [endOuter] at hE
-            split at hE
-            · injection hE with hE
-            · exact a6 E hE hpc
-          · intro i hi; simp only [finSlot] at hi
-            split at hi
-            · contradiction
-            · rw [m5]; exact a7 i hi
-          · simp
-          · intro hpc; simp only [finSlot]; split
-            · rfl
-            · exact a9 hpc
-          · intro i w' hw' hne
-            by_cases hfin : s.onFin = true
-            · exact finTimers_sub hfin a10 i w' hw'
-            · simp [finSlot, hfin] at hne; exact m4 i w' hw' hne
-          · exact a11
-          · intro E hE hr'
-            simp at hr'
-            simp only [endOuter] at hE
-            split at hE
-            · next hsub =>
-              injection hE with hE; subst hE
-              refine ⟨hr'.2, ?_⟩
-              intro i w' hw'
-              exact m6 i w' hw' (finTimers_sub (a8 hsub) a10 i w' hw')
-            · exact ⟨(a12 E hE hr'.1).1, m7 E hE hr'.1⟩
-          · intro _; simp [hu]
+        · next u hu' =>
+          split at hs
+          · next hc =>
+            -- `Observer::unsubscribe` clears the callbacks
+            injection hs with hs; subst hs
+            have hE' : ∀ E : Nat, endOuter s = some E → s.outerEndedAt = some E ∨ (E = s.now ∧ s.sub = true) := by
+              intro E hE; simp only [endOuter] at hE
+              split at hE
+              · next hh => injection hE with hE; exact Or.inr ⟨hE.symm, hh⟩
+              · exact Or.inl hE
+            constructor
+            · exact a1
+            · simp
+            · exact a3
+            · simp [endOuter]; cases hsub : s.sub <;> simp; exact fun h => by simp [a4.2 h] at hsub
+            · intro E hE; rcases hE' E hE with h | ⟨h, _⟩
+              · exact a5 E h
+              · subst h; exact Nat.le_refl _
+            · intro E hE j w' hw'; rcases hE' E hE with h | ⟨h, _⟩
+              · exact a6 E h j w' hw'
+              · subst h; exact k2 j w' hw'
+            · intro _ hf
+              refine ⟨rfl, ?_⟩
+              simp only [endOuter]
+              cases hsub : s.sub
+              · simp; exact (a7 hsub hf).2
+              · simp
+            · intro E hE h1 h2; rcases hE' E hE with h | ⟨h, _⟩
+              · exact a8 E h h1 h2
+              · exact h.symm
+            · exact a9
+            · exact a10
+            · exact a11
+            · intro E hE i w hw hws; rcases hE' E hE with h | ⟨_, h⟩
+              · exact a12 E h i w hw hws
+              · left; exact a2 h
+            · intro E hE j w' e hw' he; rcases hE' E hE with h | ⟨h, _⟩
+              · exact a13 E h j w' e hw' he
+              · subst h; exact k6 j w' e hw' he
+            · intro _; rfl
+          · contradiction
         · contradiction
+      · next hu =>
+        -- `on_unsubscribe` = `finalize`
+        injection hs with hs; subst hs
+        have hpw : PW p.d s.now s.timers (finTimers s s.timers) := PW.finTimers a1
+        obtain ⟨m1, m2, m3, m4, m5, m6, m7, m8⟩ := pw_basic hI hpw
+        constructor
+        · exact m1
+        · intro hsub; have := a14 hu; simp [this] at hsub
+        · simp
+        · exact a4
+        · exact a5
+        · exact m3
+        · simp
+        · exact a8
+        · intro i hi; simp only [finSlot] at hi
+          split at hi
+          · contradiction
+          · rw [m5]; exact a9 i hi
+        · intro hpc; simp only [finSlot]; split
+          · left; rfl
+          · exact a10 hpc
+        · intro i w' hw' hne
+          by_cases hfin : s.onFin = true
+          · exact finTimers_sub hfin a11 i w' hw'
+          · simp [finSlot, hfin] at hne; exact m4 i w' hw' hne
+        · intro E hE i w' hw' hws
+          by_cases hfin : s.onFin = true
+          · have := finTimers_sub hfin a11 i w' hw'; simp [this] at hws
+          · obtain ⟨w0, h0, h0s⟩ := m8 i w' hw' hws
+            rcases a12 E hE i w0 h0 h0s with h | h
+            · exact absurd h hfin
+            · right; exact h
+        · exact m7
+        · simp
       · contradiction
     | i + 2 =>
       simp only [step] at hs
       split at hs
       · next w hw =>
         have tok := a1 i w hw
-        have hI : Inv p s := ⟨a1, a2, a3, a4, a5, a6, a7, a8, a9, a10, a11, a12, a13⟩
         split at hs
         · next hp =>
           split at hs
@@ -1203,75 +1385,92 @@ theorem step_inv {p : Params} {s s' : State} {l : Label} (h : Inv p s) (hs : ste
             injection hs with hs; subst hs
             have hpw1 : PW p.d s.now s.timers (s.timers.set i (w.emitted s.now true)) :=
               PW.set a1 hw (Rel.emitted tok hp)
-            obtain ⟨n1, n2, n3, n4, n5, n6, n7⟩ := pw_basic hI hpw1
+            obtain ⟨n1, n2, n3, n4, n5, n6, n7, n8⟩ := pw_basic hI hpw1
             have hpw : PW p.d s.now s.timers (finTimers s (s.timers.set i (w.emitted s.now true))) :=
               hpw1.trans (PW.finTimers n1)
-            obtain ⟨m1, m2, m3, m4, m5, m6, m7⟩ := pw_basic hI hpw
+            obtain ⟨m1, m2, m3, m4, m5, m6, m7, m8⟩ := pw_basic hI hpw
             have hslot : s.slot = some i := by
               cases h : s.slot with
-              | none => have := a10 i w hw (by simp [h]); simp [this] at hws
+              | none => have := a11 i w hw (by simp [h]); simp [this] at hws
               | some j =>
                 by_cases hij : j = i
                 · rw [hij]
-                · have := a10 i w hw (by simp [h]; exact hij); simp [this] at hws
-            have hnarm : s.arming = false := by
-              cases ha : s.arming
-              · rfl
-              · have := a9 (Or.inr (a11 ha)); simp [this] at hslot
-            have hothers : ∀ (j : Nat) (w' : IW),
-                (finTimers s (s.timers.set i (w.emitted s.now true)))[j]? = some w' → finSlot s ≠ some j → w'.sub = false := by
-              intro j w' hw' hne
+                · have := a11 i w hw (by simp [h]; exact hij); simp [this] at hws
+            have hE' : ∀ E : Nat, endOuter s = some E → s.outerEndedAt = some E ∨ (E = s.now ∧ s.sub = true) := by
+              intro E hE; simp only [endOuter] at hE
+              split at hE
+              · next hh => injection hE with hE; exact Or.inr ⟨hE.symm, hh⟩
+              · exact Or.inl hE
+            have hsubf : ∀ (j : Nat) (w' : IW),
+                (finTimers s (s.timers.set i (w.emitted s.now true)))[j]? = some w' → w'.sub = true →
+                s.onFin = false ∧ j ≠ i := by
+              intro j w' hw' hs'
               by_cases hfin : s.onFin = true
-              · exact finTimers_sub hfin n4 j w' hw'
-              · simp [finSlot, hfin] at hne; exact m4 j w' hw' hne
+              · have := finTimers_sub hfin n4 j w' hw'; simp [this] at hs'
+              · refine ⟨by simpa using hfin, ?_⟩
+                intro hji; subst hji
+                simp [finTimers, hfin] at hw'
+                have hlt := a9 j hslot
+                simp [hlt] at hw'
+                subst hw'; simp [IW.emitted] at hs'
             constructor
             · exact m1
             · simp
-            · simp [endOuter]; cases hsub : s.sub <;> simp; exact fun h => by simp [a3.2 h] at hsub
-            · intro E hE; simp only [endOuter] at hE
-              split at hE
-              · injection hE with hE; subst hE; exact Nat.le_refl _
-              · exact a4 E hE
-            · intro E hE j w' hw'; simp only [endOuter] at hE
-              split at hE
-              · injection hE with hE; subst hE; exact m2 j w' hw'
-              · exact m3 E hE j w' hw'
-            · intro E hE hpc
-              have := a9 hpc; simp [this] at hslot
+            · simp
+            · simp [endOuter]; cases hsub : s.sub <;> simp; exact fun h => by simp [a4.2 h] at hsub
+            · intro E hE; rcases hE' E hE with h | ⟨h, _⟩
+              · exact a5 E h
+              · subst h; exact Nat.le_refl _
+            · intro E hE j w' hw'; rcases hE' E hE with h | ⟨h, _⟩
+              · exact m3 E h j w' hw'
+              · subst h; exact m2 j w' hw'
+            · simp
+            · intro E hE h1 h2
+              rcases a10 (Or.inr h1) with h | ⟨_, h⟩
+              · simp [h] at hslot
+              · rcases hE' E hE with h' | ⟨h', _⟩
+                · exact a8 E h' h1 h2
+                · exact h'.symm
             · intro j hj; simp only [finSlot] at hj
               split at hj
               · contradiction
-              · rw [m5]; exact a7 j hj
-            · simp
-            · intro hpc; have := a9 hpc; simp [this] at hslot
-            · exact hothers
-            · exact a11
-            · intro E hE hr'
-              refine ⟨hnarm, ?_⟩
-              simp only [endOuter] at hE
-              split at hE
-              · next hsub =>
-                injection hE with hE; subst hE
-                intro j w' hw'
-                exact m6 j w' hw' (finTimers_sub (a8 hsub) n4 j w' hw')
-              · exact m7 E hE hr'
-            · exact a13
+              · rw [m5]; exact a9 j hj
+            · intro hpc; simp only [finSlot]; split
+              · left; rfl
+              · exact a10 hpc
+            · intro j w' hw' hne
+              by_cases hfin : s.onFin = true
+              · exact finTimers_sub hfin n4 j w' hw'
+              · simp [finSlot, hfin] at hne; exact m4 j w' hw' hne
+            · intro E hE j w' hw' hs'
+              obtain ⟨hf, hji⟩ := hsubf j w' hw' hs'
+              obtain ⟨w0, h0, h0s⟩ := m8 j w' hw' hs'
+              have := a11 j w0 h0 (by rw [hslot]; intro h; injection h with h; exact hji h.symm)
+              simp [this] at h0s
+            · intro E hE j w' e hw' he; rcases hE' E hE with h | ⟨h, _⟩
+              · exact m7 E h j w' e hw' he
+              · subst h; exact m6 j w' e hw' he
+            · intro _; rfl
           · next hws =>
             -- `s.next(0)` of a cancelled timer: nothing happens
             injection hs with hs; subst hs
             have hpw : PW p.d s.now s.timers (s.timers.set i (w.emitted s.now true)) :=
               PW.set a1 hw (Rel.emitted tok hp)
-            obtain ⟨m1, m2, m3, m4, m5, m6, m7⟩ := pw_basic hI hpw
-            exact ⟨m1, a2, a3, a4, m3, a6, fun j hj => by rw [m5]; exact a7 j hj, a8, a9, m4, a11,
-              fun E hE hr' => ⟨(a12 E hE hr').1, m7 E hE hr'⟩, a13⟩
+            obtain ⟨m1, m2, m3, m4, m5, m6, m7, m8⟩ := pw_basic hI hpw
+            refine ⟨m1, a2, a3, a4, a5, m3, a7, a8, fun j hj => by rw [m5]; exact a9 j hj, a10, m4, ?_, m7, a14⟩
+            intro E hE j w' hw' hs'
+            obtain ⟨w0, h0, h0s⟩ := m8 j w' hw' hs'
+            exact a12 E hE j w0 h0 h0s
         · next hp =>
           split at hs
           · next w' hw' =>
             injection hs with hs; subst hs
             have hpw : PW p.d s.now s.timers (s.timers.set i w') := PW.set a1 hw (Rel.localStep tok hw')
-            obtain ⟨m1, m2, m3, m4, m5, m6, m7⟩ := pw_basic hI hpw
-            exact ⟨m1, a2, a3, a4, m3, a6, fun j hj => by rw [m5]; exact a7 j hj, a8, a9, m4, a11,
-              fun E hE hr' => ⟨(a12 E hE hr').1, m7 E hE hr'⟩, a13⟩
+            obtain ⟨m1, m2, m3, m4, m5, m6, m7, m8⟩ := pw_basic hI hpw
+            refine ⟨m1, a2, a3, a4, a5, m3, a7, a8, fun j hj => by rw [m5]; exact a9 j hj, a10, m4, ?_, m7, a14⟩
+            intro E hE j w'' hw'' hs'
+            obtain ⟨w0, h0, h0s⟩ := m8 j w'' hw'' hs'
+            exact a12 E hE j w0 h0 h0s
           · contradiction
       · contradiction
 
@@ -1283,68 +1482,81 @@ end Timeout
 namespace Timeout
 
 /-- lower bound for everything `expected` still contains -/
-theorem expected_ge {d : Nat} : ∀ (sc : Script) (t : Nat) (armed : Bool) (o : Out) (m : Nat),
-    o ∈ expected d t armed sc → (armed = true → m ≤ t + d) →
+theorem expected_ge {d : Nat} : ∀ (sc : Script) (hs : List Nat) (t : Nat) (armed : Bool) (o : Out) (m : Nat),
+    o ∈ expected d t armed sc hs → (armed = true → m ≤ t + d) →
     (∀ (w : Wait) (ev : Ev) (r : Script), sc = (w, ev) :: r → m ≤ w.wake t) → m ≤ o.1
-  | [], t, armed, o, m, h, h1, _ => by
+  | [], hs, t, armed, o, m, h, h1, _ => by
       cases armed <;> simp [expected] at h; subst h; exact h1 rfl
-  | (w, .next x) :: r, t, armed, o, m, h, h1, h2 => by
+  | (w, .next x) :: r, hs, t, armed, o, m, h, h1, h2 => by
       have hw := h2 w _ r rfl
       simp only [expected] at h
       split at h
       · next hc => simp at h; subst h; exact h1 hc.1
       · rcases List.mem_cons.1 h with h | h
         · subst h; exact hw
-        · refine expected_ge r _ true o m h (fun _ => by omega) ?_
+        · refine expected_ge r _ _ true o m h (fun _ => by omega) ?_
           intro w' ev' r' _
-          have := w'.le_wake (w.wake t); omega
-  | (w, .error e) :: r, t, armed, o, m, h, h1, h2 => by
+          have := w'.le_wake (w.wake t + hs.headD 0); omega
+  | (w, .error e) :: r, hs, t, armed, o, m, h, h1, h2 => by
       have hw := h2 w _ r rfl
       simp only [expected] at h
       split at h
       · next hc => simp at h; subst h; exact h1 hc.1
       · simp at h; subst h; exact hw
-  | (w, .complete) :: r, t, armed, o, m, h, h1, h2 => by
+  | (w, .complete) :: r, hs, t, armed, o, m, h, h1, h2 => by
       have hw := h2 w _ r rfl
       simp only [expected] at h
       split at h
       · next hc => simp at h; subst h; exact h1 hc.1
       · simp at h; subst h; exact hw
 
-theorem exp_pass_next {d t : Nat} {armed : Bool} {w : Wait} {x : Data} {r : Script}
+theorem exp_pass_next {d t : Nat} {armed : Bool} {w : Wait} {x : Data} {r : Script} {hs : List Nat}
     (h : ¬(armed = true ∧ t + d < w.wake t)) :
-    expected d t armed ((w, .next x) :: r) = (w.wake t, .next x) :: expected d (w.wake t) true r := by
+    expected d t armed ((w, .next x) :: r) hs =
+      (w.wake t, .next x) :: expected d (w.wake t + hs.headD 0) true r hs.tail := by
   simp only [expected, h, if_false]
 
-theorem exp_pass_term {d t : Nat} {armed : Bool} {w : Wait} {ev : Ev} {r : Script}
+theorem exp_pass_term {d t : Nat} {armed : Bool} {w : Wait} {ev : Ev} {r : Script} {hs : List Nat}
     (hne : ∀ x, ev ≠ .next x) (h : ¬(armed = true ∧ t + d < w.wake t)) :
-    expected d t armed ((w, ev) :: r) = [(w.wake t, ev)] := by
+    expected d t armed ((w, ev) :: r) hs = [(w.wake t, ev)] := by
   cases ev with
   | next x => exact absurd rfl (hne x)
   | error e => simp only [expected, h, if_false]
   | complete => simp only [expected, h, if_false]
 
-theorem exp_fire {d t : Nat} {w : Wait} {ev : Ev} {r : Script} (h : t + d < w.wake t) :
-    expected d t true ((w, ev) :: r) = [(t + d, .error timedOut)] := by
+theorem exp_fire {d t : Nat} {w : Wait} {ev : Ev} {r : Script} {hs : List Nat} (h : t + d < w.wake t) :
+    expected d t true ((w, ev) :: r) hs = [(t + d, .error timedOut)] := by
   cases ev <;> simp [expected, h]
 
-theorem exp_nil {d t : Nat} : expected d t true [] = [(t + d, .error timedOut)] := by simp [expected]
+theorem exp_nil {d t : Nat} {hs : List Nat} : expected d t true [] hs = [(t + d, .error timedOut)] := by
+  simp [expected]
 
-theorem notie_cons {d t : Nat} {armed : Bool} {w : Wait} {ev : Ev} {r : Script} (h : noTie d t armed ((w, ev) :: r)) :
-    (armed = true → t + d ≠ w.wake t) ∧ (∀ x, ev = .next x → noTie d (w.wake t) true r) := by
+theorem notie_cons {d t : Nat} {armed : Bool} {w : Wait} {ev : Ev} {r : Script} {hs : List Nat}
+    (h : noTie d t armed ((w, ev) :: r) hs) :
+    (armed = true → t + d ≠ w.wake t) ∧ (∀ x, ev = .next x → noTie d (w.wake t + hs.headD 0) true r hs.tail) := by
   cases ev with
   | next x => exact ⟨h.1, fun _ _ => h.2⟩
   | error e => exact ⟨h, fun x hx => by cases hx⟩
   | complete => exact ⟨h, fun x hx => by cases hx⟩
 
+/-- instant at which the item handler that is running returns to the `is_subscribed` test -/
+def retTime (s : State) : Nat :=
+  match s.src.pc with
+  | .mid1 => match s.ph with
+      | .handling => s.src.wake
+      | _ => s.now + hnow s
+  | _ => s.now
+
 /-- the records still to come, as a function of the state (meaningful while the outer subscriber is subscribed) -/
 def fut (p : Params) (s : State) : List Out :=
   match s.src.pc with
-  | .mid1 => match s.src.rest with
-      | (_, ev) :: r => (s.now, ev) :: expected p.d s.now true r
-      | [] => []
-  | .mid2 => expected p.d s.now true s.src.rest.tail
-  | _ => expected p.d s.src.base s.slot.isSome s.src.rest
+  | .mid1 => match s.ph with
+      | .handling => expected p.d s.src.wake true s.src.rest.tail s.hrest.tail
+      | _ => match s.src.rest with
+          | (_, ev) :: r => (s.now, ev) :: expected p.d (s.now + hnow s) true r s.hrest.tail
+          | [] => []
+  | .mid2 => expected p.d s.now true s.src.rest.tail s.hrest.tail
+  | _ => expected p.d s.src.base s.slot.isSome s.src.rest s.hrest
 
 structure FInv (p : Params) (s : State) : Prop where
   sub_src' : s.sub = true → s.srcSub = true
@@ -1353,28 +1565,32 @@ structure FInv (p : Params) (s : State) : Prop where
   sl : s.src.pc = .sleeping → s.now ≤ s.src.wake ∧
          ∀ (w : Wait) (ev : Ev) (r : Script), s.src.rest = (w, ev) :: r → s.src.wake = w.wake s.src.base
   call : s.src.pc = .call → ∀ (w : Wait) (ev : Ev) (r : Script), s.src.rest = (w, ev) :: r → s.now = w.wake s.src.base
-  mid : (s.src.pc = .mid1 ∨ s.src.pc = .mid2) → s.srcSub = true ∨ s.sub = false
-  mid_next : (s.src.pc = .mid1 ∨ s.src.pc = .mid2) →
-         ∀ (w : Wait) (ev : Ev) (r : Script), s.src.rest = (w, ev) :: r → ∃ x, ev = .next x
-  armed : s.sub = true → ∀ i : Nat, s.slot = some i → ∃ w : IW, s.timers[i]? = some w ∧ w.sub = true ∧ w.born = s.src.base
+  hand : s.src.pc = .mid1 → s.ph = .handling → s.now ≤ s.src.wake
+  recheck_slot : s.sub = true → s.src.pc = .mid2 → s.ph = .recheck → s.slot.isSome = true
+  updone : s.upc = .done
+  armed : s.sub = true → ∀ i : Nat, s.slot = some i → ∃ w : IW, s.timers[i]? = some w ∧ w.sub = true ∧
+            w.born = (if s.src.pc = .mid2 then s.now else s.src.base)
   notie : s.sub = true → (s.src.pc = .sleeping ∨ s.src.pc = .call ∨ s.src.pc = .done) →
-            noTie p.d s.src.base s.slot.isSome s.src.rest
-  notie_mid : s.sub = true → (s.src.pc = .mid1 ∨ s.src.pc = .mid2) → noTie p.d s.now true s.src.rest.tail
-  log_sub : s.sub = true → s.log ++ fut p s = expected p.d 0 false p.script
-  log_end : s.sub = false → s.log = expected p.d 0 false p.script
+            noTie p.d s.src.base s.slot.isSome s.src.rest s.hrest
+  notie_mid : s.sub = true → (s.src.pc = .mid1 ∨ s.src.pc = .mid2) →
+            noTie p.d (retTime s) true s.src.rest.tail s.hrest.tail
+  log_sub : s.sub = true → s.log ++ fut p s = expected p.d 0 false p.script p.handling
+  log_end : s.sub = false → s.log = expected p.d 0 false p.script p.handling
 
-theorem finv_init (p : Params) (hnt : noTie p.d 0 false p.script) : FInv p (init p) := by
+theorem finv_init (p : Params) (hu : p.unsubAt = none) (hnt : noTie p.d 0 false p.script p.handling) :
+    FInv p (init p) := by
   cases hs : p.script with
-  | nil => constructor <;> simp [init, Src.start, hs, fut, noTie]
+  | nil => constructor <;> simp [init, Src.start, hs, fut, noTie, hu]
   | cons a r =>
     obtain ⟨w, ev⟩ := a
     rw [hs] at hnt
-    constructor <;> simp [init, Src.start, hs, fut] <;> first | exact w.le_wake 0 | exact hnt
+    constructor <;> simp [init, Src.start, hs, fut, hu] <;> first | exact w.le_wake 0 | exact hnt
 
 /-- while the outer subscriber is subscribed, the armed timer has not yet had its chance to fire -/
 theorem armed_bound {p : Params} {s : State} (hi : Inv p s) (hf : FInv p s) (hsub : s.sub = true) (i : Nat)
-    (hslot : s.slot = some i) : s.now ≤ s.src.base + p.d := by
+    (hslot : s.slot = some i) (hpc : s.src.pc ≠ .mid2) : s.now ≤ s.src.base + p.d := by
   obtain ⟨w, hw, hws, hwb⟩ := hf.armed hsub i hslot
+  simp [hpc] at hwb
   obtain ⟨iw, tw⟩ := hi.timers_ok i w hw
   rcases (tw.first hws).2 with h | h | h
   · have := tw.top hws h; omega
@@ -1395,10 +1611,12 @@ theorem fire_fut {p : Params} {s : State} (hi : Inv p s) (hf : FInv p s) (hsub :
   obtain ⟨w', hw', _, hwb⟩ := hf.armed hsub i hslot
   rw [hw] at hw'; injection hw' with hw'; subst hw'
   obtain ⟨iw, tw⟩ := hi.timers_ok i w hw
-  have hnow : s.now = s.src.base + p.d := by rw [← hwb]; exact tw.em hws hpc
+  have hem := tw.em hws hpc
   have hsl : s.slot.isSome = true := by simp [hslot]
   cases hp : s.src.pc
   · -- sleeping
+    simp [hp] at hwb
+    have hnow : s.now = s.src.base + p.d := by rw [← hwb]; exact hem
     cases hr : s.src.rest with
     | nil => exact absurd hr (hf.nonempty (by simp [hp]))
     | cons a r =>
@@ -1409,6 +1627,8 @@ theorem fire_fut {p : Params} {s : State} (hi : Inv p s) (hf : FInv p s) (hsub :
       simp only [fut, hp, hr, hsl]
       rw [exp_fire (by omega), hnow]
   · -- call: excluded by `noTie`
+    simp [hp] at hwb
+    have hnow : s.now = s.src.base + p.d := by rw [← hwb]; exact hem
     cases hr : s.src.rest with
     | nil => exact absurd hr (hf.nonempty (by simp [hp]))
     | cons a r =>
@@ -1416,18 +1636,37 @@ theorem fire_fut {p : Params} {s : State} (hi : Inv p s) (hf : FInv p s) (hsub :
       have := hf.call hp wt ev r hr
       have hnt := (notie_cons (hr ▸ hf.notie hsub (Or.inr (Or.inl hp)))).1 hsl
       omega
-  · have := hi.mid_slot (Or.inl hp); simp [this] at hslot
-  · have := hi.mid_slot (Or.inr hp); simp [this] at hslot
-  · simp only [fut, hp, hf.done hp, hsl]
+  · rcases hi.mid_slot (Or.inl hp) with h | ⟨h, _⟩
+    · simp [h] at hslot
+    · simp [hp] at h
+  · -- the timer stored a moment ago fires before the re-check (only possible when `d = 0`)
+    simp [hp] at hwb
+    have hnow : s.now = s.now + p.d := by rw [hwb] at hem; exact hem
+    have hnt := hf.notie_mid hsub (Or.inr hp)
+    simp only [retTime, hp] at hnt
+    simp only [fut, hp]
+    cases hr : s.src.rest.tail with
+    | nil => rw [exp_nil, ← hnow]
+    | cons a r =>
+      obtain ⟨wt, ev⟩ := a
+      rw [hr] at hnt
+      have h1 := (notie_cons hnt).1 rfl
+      have := wt.le_wake s.now
+      rw [exp_fire (by omega), ← hnow]
+  · simp [hp] at hwb
+    have hnow : s.now = s.src.base + p.d := by rw [← hwb]; exact hem
+    simp only [fut, hp, hf.done hp, hsl]
     rw [exp_nil, hnow]
 
-theorem fstep {p : Params} {s s' : State} {l : Label} (hu : p.unsubAt = none) (hi : Inv p s) (hf : FInv p s)
+theorem fstep {p : Params} {s s' : State} {l : Label} (_hu : p.unsubAt = none) (hi : Inv p s) (hf : FInv p s)
     (hs : step p s l = some s') : FInv p s' := by
   have hab := armed_bound hi hf
   have hfire := @fire_fut p s hi hf
   have hms := hi.mid_slot
-  have hoth := hi.others
-  obtain ⟨b0, b1, b2, b3, b4, b5, b6, b9, b10, b11, b12, b13⟩ := hf
+  obtain ⟨b0, b1, b2, b3, b4, b5, b6, b7, b9, b10, b11, b12, b13⟩ := hf
+  have hq := Src.start_props s.now s.src.rest.tail
+  have hpcn : (s.src.advance s.now).pc ≠ .mid1 ∧ (s.src.advance s.now).pc ≠ .mid2 := by
+    simp only [Src.advance]; rcases hq.1 with h | h <;> simp [h]
   cases l with
   | tick t' =>
     simp only [step] at hs
@@ -1435,7 +1674,7 @@ theorem fstep {p : Params} {s s' : State} {l : Label} (hu : p.unsubAt = none) (h
     · next hc =>
       obtain ⟨c1, c2, c3, c4⟩ := hc
       injection hs with hs; subst hs
-      constructor <;> grind [Src.allowsTick, fut]
+      constructor <;> grind [srcAllowsTick, fut, retTime]
     · contradiction
   | run tid =>
     match tid with
@@ -1453,14 +1692,15 @@ theorem fstep {p : Params} {s s' : State} {l : Label} (hu : p.unsubAt = none) (h
           · contradiction
         · contradiction
       · next hp =>
+        have hpass : ∀ w : Wait, s.sub = true → s.now = w.wake s.src.base →
+            ¬(s.slot.isSome = true ∧ s.src.base + p.d < w.wake s.src.base) := by
+          intro w hsub hnow ⟨h1, h2⟩
+          obtain ⟨i, hi'⟩ := Option.isSome_iff_exists.1 h1
+          have := hab hsub i hi' (by simp [hp]); omega
         split at hs
         · next w x r hr =>
           have hnow := b4 hp w _ r hr
           have hnt := fun (hsub : s.sub = true) => notie_cons (hr ▸ b10 hsub (Or.inr (Or.inl hp)))
-          have hpass : s.sub = true → ¬(s.slot.isSome = true ∧ s.src.base + p.d < w.wake s.src.base) := by
-            intro hsub ⟨h1, h2⟩
-            obtain ⟨i, hi'⟩ := Option.isSome_iff_exists.1 h1
-            have := hab hsub i hi'; omega
           split at hs
           · next hsrc =>
             injection hs with hs; subst hs
@@ -1472,145 +1712,240 @@ theorem fstep {p : Params} {s s' : State} {l : Label} (hu : p.unsubAt = none) (h
             · grind
             · grind
             · grind
+            · exact b7
             · grind
             · grind
             · intro hsub _
-              simp only [hr, List.tail_cons]
-              rw [hnow]; exact (hnt hsub).2 x rfl
+              simp only [retTime, hr, List.tail_cons, hnow]
+              exact (hnt hsub).2 x rfl
             · intro hsub
               simp only [fut, hr]
               have := b12 hsub
               simp only [fut, hp, hr] at this
-              rw [exp_pass_next (hpass hsub), ← hnow] at this
+              rw [exp_pass_next (hpass w hsub hnow), ← hnow] at this
               exact this
             · exact b13
           · next hsrc =>
             injection hs with hs; subst hs
-            obtain ⟨q1, q2, q3, q4, q5, q6⟩ := Src.start_props s.now s.src.rest.tail
             have hsub : s.sub = false := by cases h : s.sub <;> simp_all
-            constructor <;> grind [Src.advance]
+            obtain ⟨q1, q2, q3, q4, q5, q6⟩ := hq
+            constructor <;> grind [next, Src.advance]
         · next w ev r hne hr =>
           have hnow := b4 hp w _ r hr
-          have hpass : s.sub = true → ¬(s.slot.isSome = true ∧ s.src.base + p.d < w.wake s.src.base) := by
-            intro hsub ⟨h1, h2⟩
-            obtain ⟨i, hi'⟩ := Option.isSome_iff_exists.1 h1
-            have := hab hsub i hi'; omega
-          obtain ⟨q1, q2, q3, q4, q5, q6⟩ := Src.start_props s.now s.src.rest.tail
+          obtain ⟨q1, q2, q3, q4, q5, q6⟩ := hq
           split at hs
           · next hsrc =>
             injection hs with hs; subst hs
-            have hlog : (s.log ++ if s.sub = true then [(s.now, ev)] else []) = expected p.d 0 false p.script := by
+            have hlog : (s.log ++ if s.sub = true then [(s.now, ev)] else []) = expected p.d 0 false p.script p.handling := by
               cases hsub : s.sub
               · simpa using b13 hsub
               · have := b12 hsub
                 simp only [fut, hp, hr] at this
-                rw [exp_pass_term (fun x hx => hne x hx) (hpass hsub), ← hnow] at this
+                rw [exp_pass_term (fun x hx => hne x hx) (hpass w hsub hnow), ← hnow] at this
                 simp [this]
             constructor
             · simp
-            · grind [Src.advance]
-            · grind [Src.advance]
-            · grind [Src.advance]
-            · grind [Src.advance]
-            · grind [Src.advance]
-            · grind [Src.advance]
-            · simp
-            · simp
-            · simp
-            · simp
+            · grind [next, Src.advance]
+            · grind [next, Src.advance]
+            · grind [next, Src.advance]
+            · grind [next, Src.advance]
+            · grind [next, Src.advance]
+            · simp [next]
+            · exact b7
+            · simp [next]
+            · simp [next]
+            · simp [next]
+            · simp [next]
             · intro _; exact hlog
           · next hsrc =>
             injection hs with hs; subst hs
             have hsub : s.sub = false := by cases h : s.sub <;> simp_all
-            constructor <;> grind [Src.advance]
+            constructor <;> grind [next, Src.advance]
         · contradiction
       · next hp =>
+        have hslot : s.slot = none := by
+          rcases hms (Or.inl hp) with h | ⟨h, _⟩
+          · exact h
+          · simp [hp] at h
         split at hs
-        · next w ev r hr =>
+        · next hph =>
+          split at hs
+          · next hwk =>
+            -- the consumer's callback returns
+            injection hs with hs; subst hs
+            have hnow : s.now = s.src.wake := Nat.le_antisymm (b5 hp hph) hwk
+            constructor
+            · exact b0
+            · grind
+            · grind
+            · grind
+            · grind
+            · grind
+            · grind
+            · exact b7
+            · grind
+            · grind
+            · intro hsub _
+              have := b11 hsub (Or.inl hp)
+              simp only [retTime, hp, hph] at this
+              simp only [retTime, hnow]; exact this
+            · intro hsub
+              have := b12 hsub
+              simp only [fut, hp, hph] at this
+              simp only [fut, hnow]; exact this
+            · exact b13
+          · contradiction
+        · next hph =>
+          split at hs
+          · next w ev r hr =>
+            split at hs
+            · next hsub =>
+              -- `sink_next`: the record is delivered and the consumer starts working on it
+              injection hs with hs; subst hs
+              have hfut := b12 hsub
+              have hnt := b11 hsub (Or.inl hp)
+              have hfs : fut p s = (s.now, ev) :: expected p.d (s.now + hnow s) true r s.hrest.tail := by
+                simp only [fut, hp, hr]
+              have hrt : retTime s = s.now + hnow s := by
+                simp only [retTime, hp]
+              rw [hfs] at hfut; rw [hrt] at hnt
+              by_cases h0 : hnow s = 0
+              · simp only [h0, if_true, Nat.add_zero] at hfut hnt ⊢
+                constructor
+                · exact b0
+                · grind
+                · grind
+                · grind
+                · grind
+                · grind
+                · grind
+                · exact b7
+                · grind
+                · grind
+                · intro _ _; simpa [retTime] using hnt
+                · intro _; simp only [fut, hr, List.tail_cons]; rw [← hfut]; simp
+                · intro h; have h' : s.sub = false := h; simp [hsub] at h'
+              · simp only [h0, if_false] at hfut hnt ⊢
+                constructor
+                · exact b0
+                · grind
+                · grind
+                · grind
+                · grind
+                · intro _ _; simp
+                · grind
+                · exact b7
+                · grind
+                · grind
+                · intro _ _; simpa [retTime, hp] using hnt
+                · intro _; simp only [fut, hr, List.tail_cons]; rw [← hfut]; simp
+                · intro h; have h' : s.sub = false := h; simp [hsub] at h'
+            · next hsub =>
+              injection hs with hs; subst hs
+              have hsub' : s.sub = false := by simpa using hsub
+              constructor
+              · simp [hsub']
+              · grind
+              · grind
+              · grind
+              · grind
+              · grind
+              · intro h; have h' : s.sub = true := h; simp [hsub'] at h'
+              · exact b7
+              · intro h; have h' : s.sub = true := h; simp [hsub'] at h'
+              · intro h; have h' : s.sub = true := h; simp [hsub'] at h'
+              · intro h; have h' : s.sub = true := h; simp [hsub'] at h'
+              · intro h; have h' : s.sub = true := h; simp [hsub'] at h'
+              · intro _; exact b13 hsub'
+          · contradiction
+      · next hp =>
+        obtain ⟨q1, q2, q3, q4, q5, q6⟩ := hq
+        have hfut2 : s.sub = true →
+            s.log ++ expected p.d s.now true s.src.rest.tail s.hrest.tail = expected p.d 0 false p.script p.handling := by
+          intro hsub; have := b12 hsub; simpa only [fut, hp] using this
+        have hnt2 : s.sub = true → noTie p.d s.now true s.src.rest.tail s.hrest.tail := by
+          intro hsub; have := b11 hsub (Or.inr hp); simpa only [retTime, hp] using this
+        split at hs
+        · next hph =>
+          -- store the new timer
+          injection hs with hs; subst hs
+          constructor
+          · exact b0
+          · grind
+          · grind
+          · grind
+          · grind
+          · grind
+          · intro _ _ _; simp
+          · exact b7
+          · intro hsub i hi
+            simp at hi; subst hi
+            exact ⟨{ born := s.now }, by simp, rfl, by simp [hp]⟩
+          · grind
+          · intro hsub _; simpa only [retTime, hp] using hnt2 hsub
+          · intro hsub; simpa only [fut, hp] using hfut2 hsub
+          · exact b13
+        · next hph =>
+          split at hs
+          · next hsub =>
+            -- re-check passed: the handler returns with the timer armed
+            injection hs with hs; subst hs
+            have hsl := b6 hsub hp hph
+            have hfn : fut p (next s) = expected p.d s.now true s.src.rest.tail s.hrest.tail := by
+              simp only [fut, next]
+              split
+              · next h => exact absurd h hpcn.1
+              · next h => exact absurd h hpcn.2
+              · simp [Src.advance, q3, hsl]
+            constructor
+            · exact b0
+            · grind [next, Src.advance]
+            · grind [next, Src.advance]
+            · grind [next, Src.advance]
+            · grind [next, Src.advance]
+            · intro h; exact absurd h hpcn.1
+            · intro _ h; exact absurd h hpcn.2
+            · exact b7
+            · intro _ i hi
+              obtain ⟨w, h1, h2, h3⟩ := b9 hsub i hi
+              refine ⟨w, h1, h2, ?_⟩
+              simp only [hp, if_true] at h3
+              simp [next, Src.advance, q3, h3]
+            · intro _ _
+              simpa [next, Src.advance, q3, hsl] using hnt2 hsub
+            · intro _ h; rcases h with h | h
+              · exact absurd h hpcn.1
+              · exact absurd h hpcn.2
+            · intro _; rw [hfn]; exact hfut2 hsub
+            · exact b13
+          · next hsub =>
+            injection hs with hs; subst hs
+            have hsub' : s.sub = false := by simpa using hsub
+            constructor <;> grind [next, Src.advance]
+        · next hph1 hph2 =>
           split at hs
           · next hsub =>
             injection hs with hs; subst hs
             constructor
-            · grind
-            · grind
-            · grind
-            · grind
-            · grind
-            · grind
-            · grind
-            · grind
-            · grind
-            · grind
-            · intro _
-              have := b12 hsub
-              simp only [fut, hp, hr] at this
-              simp only [fut, hr, List.tail_cons]
-              rw [← this]; simp
-            · intro hsub'; have hsub'' : s.sub = false := hsub'; simp [hsub] at hsub''
+            · exact b0
+            · exact b1
+            · exact b2
+            · exact b3
+            · exact b4
+            · intro h; have h' : s.src.pc = .mid1 := h; simp [hp] at h'
+            · intro _ _ h; have : Ph.store = Ph.recheck := h; cases this
+            · exact b7
+            · exact b9
+            · exact b10
+            · intro hsub' _; simpa only [retTime, hp] using hnt2 hsub
+            · intro _; simpa only [fut, hp] using hfut2 hsub
+            · exact b13
           · next hsub =>
             injection hs with hs; subst hs
             have hsub' : s.sub = false := by simpa using hsub
-            constructor
-            · simp [hsub']
-            · grind
-            · grind
-            · grind
-            · grind
-            · intro _; right; exact hsub'
-            · grind
-            · intro h; have h' : s.sub = true := h; simp [hsub'] at h'
-            · intro h; have h' : s.sub = true := h; simp [hsub'] at h'
-            · intro h; have h' : s.sub = true := h; simp [hsub'] at h'
-            · intro h; have h' : s.sub = true := h; simp [hsub'] at h'
-            · intro _; exact b13 hsub'
-        · contradiction
-      · next hp =>
-        obtain ⟨q1, q2, q3, q4, q5, q6⟩ := Src.start_props s.now s.src.rest.tail
-        have hslot := hms (Or.inr hp)
-        split at hs
-        · next harm =>
-          injection hs with hs; subst hs
-          constructor
-          · grind
-          · grind [Src.advance]
-          · grind [Src.advance]
-          · grind [Src.advance]
-          · grind [Src.advance]
-          · grind [Src.advance]
-          · grind [Src.advance]
-          · intro hsub i hi
-            simp at hi; subst hi
-            refine ⟨{ born := s.now }, by simp, rfl, ?_⟩
-            simp [Src.advance, q3]
-          · intro hsub _
-            have := b11 hsub (Or.inr hp)
-            simpa [Src.advance, q2, q3] using this
-          · grind [Src.advance]
-          · intro hsub
-            have := b12 hsub
-            simp only [fut, hp] at this
-            have hpc : (s.src.advance s.now).pc ≠ .mid1 ∧ (s.src.advance s.now).pc ≠ .mid2 := by
-              simp only [Src.advance]; rcases q1 with h | h <;> simp [h]
-            have : fut p { s with src := s.src.advance s.now, slot := some s.timers.length,
-                                  timers := s.timers ++ [{ born := s.now }], arming := false } =
-                expected p.d s.now true s.src.rest.tail := by
-              simp only [fut]
-              split
-              · next h => exact absurd h hpc.1
-              · next h => exact absurd h hpc.2
-              · simp [Src.advance, q3]
-            rw [this]; assumption
-          · exact b13
-        · split at hs
-          · next hsub =>
-            injection hs with hs; subst hs
-            exact ⟨b0, b1, b2, b3, b4, b5, b6, b9, b10, b11, b12, b13⟩
-          · next hsub =>
-            injection hs with hs; subst hs
-            have hsub' : s.sub = false := by simpa using hsub
-            constructor <;> grind [Src.advance]
+            constructor <;> grind [next, Src.advance]
       · contradiction
-    | 1 => simp [step, hu] at hs
+    | 1 => simp [step, b7] at hs
     | i + 2 =>
       simp only [step] at hs
       split at hs
@@ -1627,8 +1962,9 @@ theorem fstep {p : Params} {s s' : State} {l : Label} (hu : p.unsubAt = none) (h
             · exact b2
             · exact b3
             · exact b4
+            · exact b5
             · simp
-            · exact b6
+            · exact b7
             · simp
             · simp
             · simp
@@ -1645,13 +1981,13 @@ theorem fstep {p : Params} {s s' : State} {l : Label} (hu : p.unsubAt = none) (h
             have hws' : w.sub = false := by simpa using hws
             have hkeep : ∀ j : Nat, j ≠ i → (s.timers.set i (w.emitted s.now true))[j]? = s.timers[j]? := by
               intro j hj; rw [List.getElem?_set]; simp [Ne.symm hj]
-            refine ⟨b0, b1, b2, b3, b4, b5, b6, ?_, b10, b11, ?_, b13⟩
+            refine ⟨b0, b1, b2, b3, b4, b5, b6, b7, ?_, b10, b11, ?_, b13⟩
             · intro hsub j hj
               obtain ⟨w', h1, h2, h3⟩ := b9 hsub j hj
               have hji : j ≠ i := by
                 intro h; subst h; rw [hw] at h1; injection h1 with h1; subst h1; simp [hws'] at h2
               exact ⟨w', by rw [hkeep j hji]; exact h1, h2, h3⟩
-            · intro hsub; have := b12 hsub; simpa [fut] using this
+            · intro hsub; exact b12 hsub
         · next hpc =>
           split at hs
           · next w' hw' =>
@@ -1670,55 +2006,58 @@ theorem fstep {p : Params} {s s' : State} {l : Label} (hu : p.unsubAt = none) (h
                 rw [hw] at hw0; injection hw0 with hw0; subst hw0
                 simp [hlt, f2, fb]
               · simp [hij]; exact ⟨w0, hw0, rfl, rfl⟩
-            refine ⟨b0, b1, b2, b3, b4, b5, b6, ?_, b10, b11, ?_, b13⟩
+            refine ⟨b0, b1, b2, b3, b4, b5, b6, b7, ?_, b10, b11, ?_, b13⟩
             · intro hsub j hj
               obtain ⟨w0, h1, h2, h3⟩ := b9 hsub j hj
               obtain ⟨w'', g1, g2, g3⟩ := hget j w0 h1
               exact ⟨w'', g1, by rw [g2]; exact h2, by rw [g3]; exact h3⟩
-            · intro hsub; have := b12 hsub; simpa [fut] using this
+            · intro hsub; exact b12 hsub
           · contradiction
       · contradiction
 
 theorem fut_ge {p : Params} {s : State} (hi : Inv p s) (hf : FInv p s) (hsub : s.sub = true) (o : Out)
     (ho : o ∈ fut p s) : s.now ≤ o.1 := by
   have hab := armed_bound hi hf hsub
-  have hnowge : ∀ (t : Nat) (sc : Script), o ∈ expected p.d s.now true sc → s.now ≤ o.1 := by
-    intro t sc h
-    refine expected_ge sc s.now true o s.now h (fun _ => by omega) ?_
-    intro w ev r _; exact w.le_wake s.now
+  have hge : ∀ (t : Nat) (sc : Script) (hs : List Nat), s.now ≤ t → o ∈ expected p.d t true sc hs → s.now ≤ o.1 := by
+    intro t sc hs ht h
+    refine expected_ge sc hs t true o s.now h (fun _ => by omega) ?_
+    intro w ev r _; have := w.le_wake t; omega
   cases hp : s.src.pc <;> simp only [fut, hp] at ho
-  · refine expected_ge _ _ _ o s.now ho ?_ ?_
-    · intro h; obtain ⟨i, hi'⟩ := Option.isSome_iff_exists.1 h; exact hab i hi'
+  · refine expected_ge _ _ _ _ o s.now ho ?_ ?_
+    · intro h; obtain ⟨i, hi'⟩ := Option.isSome_iff_exists.1 h; exact hab i hi' (by simp [hp])
     · intro w ev r hr; have := hf.sl hp; have := this.2 w ev r hr; omega
-  · refine expected_ge _ _ _ o s.now ho ?_ ?_
-    · intro h; obtain ⟨i, hi'⟩ := Option.isSome_iff_exists.1 h; exact hab i hi'
+  · refine expected_ge _ _ _ _ o s.now ho ?_ ?_
+    · intro h; obtain ⟨i, hi'⟩ := Option.isSome_iff_exists.1 h; exact hab i hi' (by simp [hp])
     · intro w ev r hr; have := hf.call hp w ev r hr; omega
   · split at ho
-    · rcases List.mem_cons.1 ho with h | h
-      · subst h; exact Nat.le_refl _
-      · exact hnowge 0 _ h
-    · simp at ho
-  · exact hnowge 0 _ ho
-  · refine expected_ge _ _ _ o s.now ho ?_ ?_
-    · intro h; obtain ⟨i, hi'⟩ := Option.isSome_iff_exists.1 h; exact hab i hi'
+    · next hph => exact hge _ _ _ (hf.hand hp hph) ho
+    · split at ho
+      · rcases List.mem_cons.1 ho with h | h
+        · subst h; exact Nat.le_refl _
+        · exact hge _ _ _ (by omega) h
+      · simp at ho
+  · exact hge _ _ _ (Nat.le_refl _) ho
+  · refine expected_ge _ _ _ _ o s.now ho ?_ ?_
+    · intro h; obtain ⟨i, hi'⟩ := Option.isSome_iff_exists.1 h; exact hab i hi' (by simp [hp])
     · intro w ev r hr; simp [hf.done hp] at hr
 
-theorem reach_finv {p : Params} (hu : p.unsubAt = none) (hnt : noTie p.d 0 false p.script) {s : State}
+theorem reach_finv {p : Params} (hu : p.unsubAt = none) (hnt : noTie p.d 0 false p.script p.handling) {s : State}
     (hr : Reach (step p) (init p) s) : Inv p s ∧ FInv p s := by
-  refine reach_induct (fun s => Inv p s ∧ FInv p s) ⟨inv_init p, finv_init p hnt⟩ ?_ s hr
+  refine reach_induct (fun s => Inv p s ∧ FInv p s) ⟨inv_init p, finv_init p hu hnt⟩ ?_ s hr
   intro s l s' ⟨h1, h2⟩ hs
   exact ⟨step_inv h1 hs, fstep hu h1 h2 hs⟩
 
-/-- **C16 `timeout_exact`.**  For every period, every source script without an exact tie (`noTie`: no source call falls
-exactly `d` after the previous item) and every interleaving: the log of the subscriber of `source.timeout(d)` is always
-a prefix of `expected d 0 false script`, and every record of it due before `now` is present.  `expected` passes items
-and the terminal event through at their own times and ends with `TimedOut` at `t_item + d` exactly when the next
-source call (or the end of a script that never terminates) comes more than `d` after an item
-(`expected_no_gap`, `expected_gap`). -/
-theorem timeout_exact (p : Params) (hu : p.unsubAt = none) (hnt : noTie p.d 0 false p.script) (s : State)
+/-- **C16 `timeout_exact`.**  For every period, every source script, every list of consumer handling times (the
+consumer's callback runs on the source thread inside `sink_next`), provided there is no exact tie (`noTie`: no source
+call falls exactly `d` after the previous handler returned), and for every interleaving: the log of the subscriber of
+`source.timeout(d)` is always a prefix of `expected d 0 false script handling`, and every record of it due before `now`
+is present.  `expected` passes items and the terminal event through at the instants the source makes the calls and ends
+with `TimedOut` at `t_return + d` exactly when the next source call (or the end of a script that never terminates)
+comes more than `d` after the previous item's handler returned (`expected_no_gap`, `expected_gap`). -/
+theorem timeout_exact (p : Params) (hu : p.unsubAt = none) (hnt : noTie p.d 0 false p.script p.handling) (s : State)
     (hr : Reach (step p) (init p) s) :
-    s.log <+: expected p.d 0 false p.script ∧
-    (∀ o ∈ expected p.d 0 false p.script, o.1 < s.now → o ∈ s.log) := by
+    s.log <+: expected p.d 0 false p.script p.handling ∧
+    (∀ o ∈ expected p.d 0 false p.script p.handling, o.1 < s.now → o ∈ s.log) := by
   obtain ⟨hi, hf⟩ := reach_finv hu hnt hr
   cases hsub : s.sub
   · have := hf.log_end hsub
@@ -1731,92 +2070,180 @@ theorem timeout_exact (p : Params) (hu : p.unsubAt = none) (hnt : noTie p.d 0 fa
     · exact ho
     · have := fut_ge hi hf hsub o ho; omega
 
-end Timeout
+/-- pass-through: every event at the instant the source makes the call (the call after an item is made `gap` after that
+    item's handler returned), up to the first terminal event -/
+def pass : Nat → Script → List Nat → List Out
+  | _, [], _ => []
+  | t, (w, .next x) :: r, hs => (w.wake t, .next x) :: pass (w.wake t + hs.headD 0) r hs.tail
+  | t, (w, ev) :: _, _ => [(w.wake t, ev)]
 
-namespace Timeout
+/-- some call of the source — or the end of a script that never terminates — comes more than `d` after the previous
+    item's handler returned (`armed` = an item was handled and its handler returned at `t`) -/
+def gap (d : Nat) : Nat → Bool → Script → List Nat → Prop
+  | _, armed, [], _ => armed = true
+  | t, armed, (w, .next _) :: r, hs => (armed = true ∧ t + d < w.wake t) ∨ gap d (w.wake t + hs.headD 0) true r hs.tail
+  | t, armed, (w, _) :: _, _ => armed = true ∧ t + d < w.wake t
 
-/-- pass-through: every event at the instant the source makes the call, up to the first terminal event -/
-def pass : Nat → Script → List Out
-  | _, [] => []
-  | t, (w, .next x) :: r => (w.wake t, .next x) :: pass (w.wake t) r
-  | t, (w, ev) :: _ => [(w.wake t, ev)]
-
-/-- some call of the source — or the end of a script that never terminates — comes more than `d` after an item
-    (`armed` = an item was passed at `t`) -/
-def gap (d : Nat) : Nat → Bool → Script → Prop
-  | _, armed, [] => armed = true
-  | t, armed, (w, .next _) :: r => (armed = true ∧ t + d < w.wake t) ∨ gap d (w.wake t) true r
-  | t, armed, (w, _) :: _ => armed = true ∧ t + d < w.wake t
-
-/-- no gap longer than `d` after any item: everything passes through unchanged, at its own time -/
-theorem expected_no_gap (d : Nat) : ∀ (sc : Script) (t : Nat) (armed : Bool), ¬ gap d t armed sc →
-    expected d t armed sc = pass t sc
-  | [], t, armed, h => by simp [gap] at h; simp [expected, pass, h]
-  | (w, .next x) :: r, t, armed, h => by
+/-- no gap longer than `d` after any handler return: everything passes through unchanged, at its own time -/
+theorem expected_no_gap (d : Nat) : ∀ (sc : Script) (hs : List Nat) (t : Nat) (armed : Bool), ¬ gap d t armed sc hs →
+    expected d t armed sc hs = pass t sc hs
+  | [], hs, t, armed, h => by simp [gap] at h; simp [expected, pass, h]
+  | (w, .next x) :: r, hs, t, armed, h => by
       simp only [gap, not_or] at h
-      rw [exp_pass_next h.1, pass, expected_no_gap d r _ true h.2]
-  | (w, .error e) :: r, t, armed, h => by
+      rw [exp_pass_next h.1, pass, expected_no_gap d r _ _ true h.2]
+  | (w, .error e) :: r, hs, t, armed, h => by
       simp only [gap] at h
       rw [exp_pass_term (fun x hx => by cases hx) h]; rfl
-  | (w, .complete) :: r, t, armed, h => by
+  | (w, .complete) :: r, hs, t, armed, h => by
       simp only [gap] at h
       rw [exp_pass_term (fun x hx => by cases hx) h]; rfl
 
-/-- a gap longer than `d` after an item: the items before it pass through, then `TimedOut` exactly `d` after the last
-    passed item, and nothing else -/
-theorem expected_gap (d : Nat) : ∀ (sc : Script) (t : Nat) (armed : Bool), gap d t armed sc →
-    ∃ (pre : List Out) (tk : Nat), expected d t armed sc = pre ++ [(tk + d, .error timedOut)] ∧ pre <+: pass t sc ∧
-      (∀ o ∈ pre, ∃ x, o.2 = .next x) ∧ tk = (pre.getLast?.map (·.1)).getD t
-  | [], t, armed, h => by
+/-- a gap longer than `d` after a handler return: the items before it pass through, then `TimedOut` exactly `d` after
+    that return (`tk`), and nothing else -/
+theorem expected_gap (d : Nat) : ∀ (sc : Script) (hs : List Nat) (t : Nat) (armed : Bool), gap d t armed sc hs →
+    ∃ (pre : List Out) (tk : Nat), expected d t armed sc hs = pre ++ [(tk + d, .error timedOut)] ∧
+      pre <+: pass t sc hs ∧ (∀ o ∈ pre, ∃ x, o.2 = .next x) ∧ (pre = [] → tk = t) ∧
+      (∀ o ∈ pre.getLast?, o.1 ≤ tk)
+  | [], hs, t, armed, h => by
       simp [gap] at h; subst h
-      exact ⟨[], t, by simp [expected], by simp, by simp, by simp⟩
-  | (w, .next x) :: r, t, armed, h => by
+      exact ⟨[], t, by simp [expected], by simp, by simp, by simp, by simp⟩
+  | (w, .next x) :: r, hs, t, armed, h => by
       by_cases hc : armed = true ∧ t + d < w.wake t
-      · refine ⟨[], t, ?_, by simp, by simp, by simp⟩
+      · refine ⟨[], t, ?_, by simp, by simp, by simp, by simp⟩
         obtain ⟨h1, h2⟩ := hc; subst h1; simp [exp_fire h2]
       · simp only [gap] at h
         have h' := h.resolve_left hc
-        obtain ⟨pre, tk, e1, e2, e3, e4⟩ := expected_gap d r _ true h'
-        refine ⟨(w.wake t, .next x) :: pre, tk, ?_, ?_, ?_, ?_⟩
+        obtain ⟨pre, tk, e1, e2, e3, e4, e5⟩ := expected_gap d r _ _ true h'
+        refine ⟨(w.wake t, .next x) :: pre, tk, ?_, ?_, ?_, by simp, ?_⟩
         · rw [exp_pass_next hc, e1]; rfl
         · simp only [pass]; exact List.prefix_cons_inj _ |>.2 e2
         · intro o ho; rcases List.mem_cons.1 ho with h | h
           · subst h; exact ⟨x, rfl⟩
           · exact e3 o h
-        · rw [e4]; cases pre <;> simp [List.getLast?_cons]
-  | (w, .error e) :: r, t, armed, h => by
+        · cases pre with
+          | nil => intro o ho; simp at ho; subst ho; have := e4 rfl; simp; omega
+          | cons a l => intro o ho; rw [List.getLast?_cons_cons] at ho; exact e5 o ho
+  | (w, .error e) :: r, hs, t, armed, h => by
       simp only [gap] at h
       obtain ⟨h1, h2⟩ := h; subst h1
-      exact ⟨[], t, by simp [exp_fire h2], by simp, by simp, by simp⟩
-  | (w, .complete) :: r, t, armed, h => by
+      exact ⟨[], t, by simp [exp_fire h2], by simp, by simp, by simp, by simp⟩
+  | (w, .complete) :: r, hs, t, armed, h => by
       simp only [gap] at h
       obtain ⟨h1, h2⟩ := h; subst h1
-      exact ⟨[], t, by simp [exp_fire h2], by simp, by simp, by simp⟩
+      exact ⟨[], t, by simp [exp_fire h2], by simp, by simp, by simp, by simp⟩
 
-/-- non-vacuity / the test of timeout.rs:110-137: items at 0,10,20,30 then a 200 gap with `d = 100` -/
+/-- the script reaches a terminal event -/
+def terminates : Script → Prop
+  | [] => False
+  | (_, .next _) :: r => terminates r
+  | _ :: _ => True
+
+/-- every call of the source is made a RELATIVE gap `g < d` after the previous handler returned -/
+def smallGaps (d : Nat) (sc : Script) : Prop := ∀ e ∈ sc, ∃ g : Nat, e.1 = Wait.rel g ∧ g < d
+
+theorem noTie_of_smallGaps {d : Nat} : ∀ (sc : Script) (hs : List Nat) (t : Nat) (armed : Bool), smallGaps d sc →
+    noTie d t armed sc hs
+  | [], _, _, _, _ => trivial
+  | (w, .next x) :: r, hs, t, armed, h => by
+      obtain ⟨g, hg, hlt⟩ := h (w, .next x) (by simp)
+      simp only at hg; subst hg
+      refine ⟨fun _ => by simp [Wait.wake]; omega, noTie_of_smallGaps r _ _ _ ?_⟩
+      intro e he; exact h e (by simp [he])
+  | (w, .error e) :: r, hs, t, armed, h => by
+      obtain ⟨g, hg, hlt⟩ := h (w, .error e) (by simp)
+      simp only at hg; subst hg
+      intro _; simp [Wait.wake]; omega
+  | (w, .complete) :: r, hs, t, armed, h => by
+      obtain ⟨g, hg, hlt⟩ := h (w, .complete) (by simp)
+      simp only at hg; subst hg
+      intro _; simp [Wait.wake]; omega
+
+theorem no_gap_of_smallGaps {d : Nat} : ∀ (sc : Script) (hs : List Nat) (t : Nat) (armed : Bool), smallGaps d sc →
+    terminates sc → ¬ gap d t armed sc hs
+  | [], _, _, _, _, ht => by simp [terminates] at ht
+  | (w, .next x) :: r, hs, t, armed, h, ht => by
+      obtain ⟨g, hg, hlt⟩ := h (w, .next x) (by simp)
+      simp only at hg; subst hg
+      simp only [gap, not_or]
+      refine ⟨by simp [Wait.wake]; omega, no_gap_of_smallGaps r _ _ _ ?_ ht⟩
+      intro e he; exact h e (by simp [he])
+  | (w, .error e) :: r, hs, t, armed, h, _ => by
+      obtain ⟨g, hg, hlt⟩ := h (w, .error e) (by simp)
+      simp only at hg; subst hg
+      simp only [gap]; simp [Wait.wake]; omega
+  | (w, .complete) :: r, hs, t, armed, h, _ => by
+      obtain ⟨g, hg, hlt⟩ := h (w, .complete) (by simp)
+      simp only at hg; subst hg
+      simp only [gap]; simp [Wait.wake]; omega
+
+theorem pass_mem : ∀ (sc : Script) (hs : List Nat) (t : Nat) (o : Out), o ∈ pass t sc hs → ∃ e ∈ sc, o.2 = e.2
+  | [], _, _, o, h => by simp [pass] at h
+  | (w, .next x) :: r, hs, t, o, h => by
+      simp only [pass, List.mem_cons] at h
+      rcases h with h | h
+      · subst h; exact ⟨(w, .next x), by simp, rfl⟩
+      · obtain ⟨e, he, h2⟩ := pass_mem r _ _ o h; exact ⟨e, by simp [he], h2⟩
+  | (w, .error e) :: r, hs, t, o, h => by
+      simp only [pass, List.mem_cons, List.not_mem_nil, or_false] at h; subst h; exact ⟨(w, .error e), by simp, rfl⟩
+  | (w, .complete) :: r, hs, t, o, h => by
+      simp only [pass, List.mem_cons, List.not_mem_nil, or_false] at h; subst h; exact ⟨(w, .complete), by simp, rfl⟩
+
+/-- **Slow consumers never cause a `TimedOut`.**  If every call of a terminating source is made less than `d` after the
+previous handler returned, then — HOWEVER LARGE the handling times are, in particular when `gap + handling > d` — the
+subscriber of `timeout(d)` sees exactly the pass-through log: the previous timer is cancelled BEFORE `sink_next`
+(timeout.rs:63-69) and the next one is armed only AFTER it returned (73-89), so no timer is armed while the consumer
+works.  (A variant that cancels the old timer only after `sink_next` would deliver `TimedOut` at `t + d` here.) -/
+theorem timeout_never_fires_on_slow_consumer (p : Params) (hu : p.unsubAt = none) (hsmall : smallGaps p.d p.script)
+    (hterm : terminates p.script) (s : State) (hr : Reach (step p) (init p) s) :
+    s.log <+: pass 0 p.script p.handling ∧
+    (∀ o ∈ pass 0 p.script p.handling, o.1 < s.now → o ∈ s.log) ∧
+    ((∀ e ∈ p.script, e.2 ≠ Ev.error timedOut) → ∀ t : Nat, (t, Ev.error timedOut) ∉ s.log) := by
+  have h := timeout_exact p hu (noTie_of_smallGaps _ _ _ _ hsmall) s hr
+  rw [expected_no_gap p.d _ _ _ _ (no_gap_of_smallGaps _ _ _ _ hsmall hterm)] at h
+  refine ⟨h.1, h.2, ?_⟩
+  intro hne t ht
+  obtain ⟨e, he, h2⟩ := pass_mem _ _ _ _ (h.1.subset ht)
+  exact hne e he h2.symm
+
+/-- gap 5 < d = 10 but handling 20: gap + handling = 25 > d, and still everything passes -/
+example : expected 10 0 false [(.rel 5, .next (.int 1)), (.rel 5, .next (.int 2)), (.rel 5, .complete)] [20, 20]
+    = [(5, .next (.int 1)), (30, .next (.int 2)), (55, .complete)] := by decide
+
+example : smallGaps 10 [(.rel 5, .next (.int 1)), (.rel 5, .next (.int 2)), (.rel 5, .complete)] ∧
+    terminates [(.rel 5, .next (.int 1)), (.rel 5, .next (.int 2)), (.rel 5, .complete)] := by
+  refine ⟨?_, trivial⟩
+  intro e he; simp at he
+  rcases he with rfl | rfl | rfl <;> exact ⟨5, rfl, by omega⟩
+
+/-- a run of that script with the slow consumer (item 1 handled from 5 to 25, item 2 from 30 to 50) -/
+example :
+    (replay { d := 10, script := [(.rel 5, .next (.int 1)), (.rel 5, .next (.int 2)), (.rel 5, .complete)], handling := [20, 20] }
+      [.tick 5, .run 0, .run 0, .run 0, .tick 25, .run 0, .run 0, .run 0, .run 0, .run 2, .tick 30, .run 0, .run 0, .run 0,
+       .tick 35, .run 2, .run 2, .run 2, .tick 50, .run 0, .run 0, .run 0, .run 0, .run 3, .tick 55, .run 0, .run 0, .tick 60,
+       .run 3, .run 3, .run 3, .tick 70]).map (fun s => (s.now, s.log, liveTimers s))
+      = some (70, [(5, .next (.int 1)), (30, .next (.int 2)), (55, .complete)], 0) := by decide
+
+/-- non-vacuity / the test of timeout.rs: items at 0,10,20,30 then a 200 gap with `d = 100` -/
 example : expected 100 0 false
     [(.rel 0, .next (.int 1)), (.rel 10, .next (.int 2)), (.rel 10, .next (.int 3)), (.rel 10, .next (.int 4)),
-     (.rel 200, .next (.int 5))]
+     (.rel 200, .next (.int 5))] []
     = [(0, .next (.int 1)), (10, .next (.int 2)), (20, .next (.int 3)), (30, .next (.int 4)), (130, .error timedOut)] := by
   decide
-
-end Timeout
-
-namespace Timeout
 
 def tieP : Params := { d := 10, script := [(.rel 0, .next (.int 1)), (.rel 10, .next (.int 2))] }
 
 /-- exact tie, timer thread first: `TimedOut` is delivered and item 2 is dropped -/
 theorem timeout_tie_fires :
     (runFrom (step tieP) (init tieP)
-      [.run 0, .run 0, .run 0, .run 0, .run 0, .run 2, .tick 10, .run 2, .run 2, .run 0, .run 0, .run 2, .tick 20]).map
+      [.run 0, .run 0, .run 0, .run 0, .run 0, .run 0, .run 2, .tick 10, .run 2, .run 2, .run 0, .run 0, .run 2, .tick 20]).map
       (fun s => (s.now, s.log))
       = some (20, [(0, .next (.int 1)), (10, .error timedOut)]) := by decide
 
 /-- exact tie, source thread first: the timer is cancelled, item 2 passes -/
 theorem timeout_tie_passes :
     (runFrom (step tieP) (init tieP)
-      [.run 0, .run 0, .run 0, .run 0, .run 0, .run 2, .tick 10, .run 0, .run 0, .run 0, .run 0, .run 0, .run 2, .run 2, .run 2, .run 3, .tick 15]).map
+      [.run 0, .run 0, .run 0, .run 0, .run 0, .run 0, .run 2, .tick 10, .run 0, .run 0, .run 0, .run 0, .run 0, .run 0,
+       .run 2, .run 2, .run 2, .run 3, .tick 15]).map
       (fun s => (s.now, s.log))
       = some (15, [(0, .next (.int 1)), (10, .next (.int 2))]) := by decide
 
@@ -2183,14 +2610,14 @@ namespace Timeout
 def demo : Params :=
   { d := 10, script := [(.rel 0, .next (.int 1)), (.rel 1, .next (.int 2)), (.rel 1, .next (.int 3)), (.rel 20, .next (.int 4))] }
 
-example : demo.unsubAt = none ∧ noTie demo.d 0 false demo.script := by
+example : demo.unsubAt = none ∧ noTie demo.d 0 false demo.script demo.handling := by
   simp [demo, noTie, Wait.wake]
 
 /-- a run of `demo`: three items pass, two timers are cancelled, the third fires `TimedOut` at 2 + 10, item 4 is dropped -/
 example :
     (replay demo
-      [.run 0, .run 0, .run 0, .run 0, .run 0, .run 2, .tick 1, .run 0, .run 0, .run 0, .run 0, .run 0, .run 3, .tick 2,
-       .run 0, .run 0, .run 0, .run 0, .run 0, .run 4, .tick 10, .run 2, .run 2, .run 2, .tick 11, .run 3, .run 3, .run 3,
+      [.run 0, .run 0, .run 0, .run 0, .run 0, .run 0, .run 2, .tick 1, .run 0, .run 0, .run 0, .run 0, .run 0, .run 0, .run 3, .tick 2,
+       .run 0, .run 0, .run 0, .run 0, .run 0, .run 0, .run 4, .tick 10, .run 2, .run 2, .run 2, .tick 11, .run 3, .run 3, .run 3,
        .tick 12, .run 4, .run 4, .run 4, .tick 22, .run 0, .run 0, .run 4, .run 4, .run 4, .tick 30]).map
       (fun s => (s.now, s.log, liveTimers s))
       = some (30, [(0, .next (.int 1)), (1, .next (.int 2)), (2, .next (.int 3)), (12, .error timedOut)], 0) := by decide
@@ -2228,6 +2655,90 @@ example :
 
 end Sample
 
+/-! ## The executable expectations of `Conc/Timed.lean` (`expectedLine`) are what the runs deliver -/
+
+theorem ticks_eq (d m : Nat) : ticks d m = Interval.expected d m := rfl
+
+theorem ticks_prefix (d : Nat) {m c : Nat} (h : m ≤ c) : ticks d m <+: ticks d c := by
+  obtain ⟨j, rfl⟩ := Nat.exists_eq_add_of_le h
+  induction j with
+  | zero => exact List.prefix_refl _
+  | succ j ih =>
+    rw [← Nat.add_assoc, ticks_succ]
+    exact (ih (Nat.le_add_right _ _)).trans (List.prefix_append _ _)
+
+namespace Interval
+
+/-- plain `interval(d)`, never unsubscribed: the log is always `expected d m` for some `m`, and for every `k` all records
+    of `expected d k` that are due before `now` are present -/
+theorem interval_expected (p : Params) (ht : p.take = none) (hu : p.unsubAt = none) (s : State)
+    (hr : Reach (step p) (init p) s) :
+    (∃ m : Nat, s.log = expected p.d m) ∧ (∀ k : Nat, ∀ o ∈ expected p.d k, o.1 < s.now → o ∈ s.log) := by
+  obtain ⟨m, h1, _, _, h4, _⟩ := interval_ticks p s hr
+  have hlog : s.log = ticks p.d m := by
+    rcases h1 with h | ⟨c, hc, _⟩
+    · exact h
+    · simp [ht] at hc
+  refine ⟨⟨m, hlog⟩, ?_⟩
+  intro k o ho hnow
+  rw [← ticks_eq] at ho
+  obtain ⟨i, hi, rfl⟩ := mem_ticks.1 ho
+  have := h4 i hnow (by simp [hu]) (by simp [ht])
+  rw [hlog]; exact mem_ticks.2 ⟨i, this, rfl⟩
+
+/-- `interval(d).take(c)`, never unsubscribed: prefix of `expectedTake d c`, everything due is present -/
+theorem interval_take_expected (p : Params) (c : Nat) (ht : p.take = some c) (hu : p.unsubAt = none) (s : State)
+    (hr : Reach (step p) (init p) s) :
+    s.log <+: expectedTake p.d c ∧ (∀ o ∈ expectedTake p.d c, o.1 < s.now → o ∈ s.log) := by
+  obtain ⟨m, h1, _, h3, h4, h5⟩ := interval_ticks p s hr
+  have hfull : ticks p.d c ++ [(max c 1 * p.d, Ev.complete)] = expectedTake p.d c := rfl
+  have hmc : m ≤ c := by
+    rcases Nat.lt_or_ge c m with h | h
+    · have := h3 c c h ht; omega
+    · exact h
+  constructor
+  · rcases h1 with h | ⟨c', hc', _, h⟩
+    · rw [h, ← hfull]; exact (ticks_prefix p.d hmc).trans (List.prefix_append _ _)
+    · rw [ht] at hc'; injection hc' with hc'; subst hc'; rw [h, hfull]; exact List.prefix_refl _
+  · intro o ho hnow
+    rw [← hfull, List.mem_append] at ho
+    rcases ho with ho | ho
+    · obtain ⟨i, hi, rfl⟩ := mem_ticks.1 ho
+      have him := h4 i hnow (by simp [hu]) (by intro c' hc'; rw [ht] at hc'; injection hc' with hc'; omega)
+      rcases h1 with h | ⟨c', _, hmc', h⟩
+      · rw [h]; exact mem_ticks.2 ⟨i, him, rfl⟩
+      · rw [h, List.mem_append]; left; exact mem_ticks.2 ⟨i, by omega, rfl⟩
+    · simp at ho; subst ho
+      rw [h5 c ht hnow (by simp [hu])]; simp
+
+end Interval
+
+namespace Timer
+
+/-- `timer(d)`, never unsubscribed: prefix of `expected d`, everything due is present -/
+theorem timer_expected (p : Params) (hu : p.unsubAt = none) (s : State) (hr : Reach (step p) (init p) s) :
+    s.log <+: expected p.d ∧ (∀ o ∈ expected p.d, o.1 < s.now → o ∈ s.log) := by
+  obtain ⟨h1, h2, _⟩ := timer_once p s hr
+  constructor
+  · rcases h1 with h | h | h <;> rw [h] <;> simp [expected]
+  · intro o ho hnow
+    have hd : p.d < s.now := by
+      simp [expected] at ho; rcases ho with rfl | rfl <;> exact hnow
+    rw [h2 hd (by simp [hu])]; exact ho
+
+end Timer
+
+/-- what `expectedLine "timeout 20 5:1:0 15:2:10 c:1"` prints (`n1@5 n2@20 c@31`): the second item arrives 15 after the
+    first was received because its handling took 0; its own handling of 10 delays the `complete` call to 20 + 10 + 1 -/
+example : Timeout.expected 20 0 false [(.rel 5, .next (.int 1)), (.rel 15, .next (.int 2)), (.rel 1, .complete)] [0, 10, 0]
+    = [(5, .next (.int 1)), (20, .next (.int 2)), (31, .complete)] := by decide
+
+example : Delay.expected 7 0 [(.rel 10, .next (.int 1)), (.rel 10, .next (.int 2)), (.rel 1, .complete)] [0, 0, 0]
+    = [(17, .next (.int 1)), (34, .next (.int 2)), (35, .complete)] := by decide
+
+example : Interval.expectedTake 10 3 = [(10, .next (.int 0)), (20, .next (.int 1)), (30, .next (.int 2)), (30, .complete)] := by
+  decide
+
 end Rx.Timed
 
 #print axioms Rx.Timed.Interval.interval_ticks
@@ -2236,12 +2747,16 @@ end Rx.Timed
 #print axioms Rx.Timed.Interval.interval_tie_delivered
 #print axioms Rx.Timed.Interval.interval_tie_dropped
 #print axioms Rx.Timed.Timer.timer_once
+#print axioms Rx.Timed.Interval.interval_expected
+#print axioms Rx.Timed.Interval.interval_take_expected
+#print axioms Rx.Timed.Timer.timer_expected
 #print axioms Rx.Timed.Delay.delay_times
 #print axioms Rx.Timed.Delay.expected_events
 #print axioms Rx.Timed.Delay.expected_sorted
 #print axioms Rx.Timed.Timeout.timeout_exact
 #print axioms Rx.Timed.Timeout.expected_no_gap
 #print axioms Rx.Timed.Timeout.expected_gap
+#print axioms Rx.Timed.Timeout.timeout_never_fires_on_slow_consumer
 #print axioms Rx.Timed.Timeout.timeout_tie_fires
 #print axioms Rx.Timed.Timeout.timeout_tie_passes
 #print axioms Rx.Timed.Debounce.debounce_subsequence
